@@ -12,2681 +12,1257 @@ Definition show_fres (r : fres) : string :=
   end.
 Definition check (rs : list rune) : string := digest (show_fres (format_res rs)).
 Definition full (rs : list rune) : string := show_fres (format_res rs).
-Eval vm_compute in ("<<<M3660>>>" ++ check (runes_of_ascii "options {
-    ArrayPrefixLenType = u16;
-    FixedStringPadFromLeft = true;
-    JavaPackage = ""com.example.msg"";
-    GoPackage = ""msg"";
-    GoModule = ""example.com/msg"";
-}
-MetaData Meta {
-    u32 SeqNum `sequence number
-more`,
-    char[8] Symbol `symbol
-more`,
-    zchar[5] ZSym `z symbol
-more`,
-    string Note,
-    Symbol AltSymbol `alias of symbol`,
-    f64 Price,
-}
-packet Inner {
-    u8 a,
-    i16 b,
-    string c,
-}
-packet Inner2 {
-    u8 a2,
-    char[3] c2,
-}
-packet Logon {
-    u8 x,
-    string user,
-    repeat u16 codes,
-}
-packet Logout {
-    u16 reason,
-}
-packet Empty {
-}
-root packet Msg {
-    u8 su8,
-    uint8 luint8,
-    u16 su16,
-    uint16 luint16,
-    u32 su32,
-    uint32 luint32,
-    u64 su64,
-    uint64 luint64,
-    i8 si8,
-    int8 lint8,
-    i16 si16,
-    int16 lint16,
-    i32 si32,
-    int32 lint32,
-    i64 si64,
-    int64 lint64,
-    f32 sf32,
-    float32 lfloat32,
-    f64 sf64,
-    float64 lfloat64,
-    char[6] fsplain,
-    @leftPad('0') char[4] fs0,
-    @rightPad('0') char[5] fs1,
-    @leftPad(' ') char[6] fs2,
-    @rightPad(' ') char[7] fs3,
-    @leftPad('\x00') char[8] fs4,
-    @rightPad('\x00') char[9] fs5,
-    @leftPad() char[10] fs6,
-    @rightPad() char[11] fs7,
-    zchar[7] fz,
-    @leftPad('0') zchar[3] fzl0,
-    string s1 `doc`,
-    char[] s2,
-    Inner,
-    Sub {
-        u8 q,
-        string w,
-        Deep {
-            u16 z,
-            repeat i32 zs,
-        },
-    },
-    repeat u8 ru8,
-    repeat u16 ru16,
-    repeat u32 ru32,
-    repeat u64 ru64,
-    repeat i8 ri8,
-    repeat i16 ri16,
-    repeat i32 ri32,
-    repeat i64 ri64,
-    repeat f32 rf32,
-    repeat f64 rf64,
-    repeat string rstr,
-    repeat char[] rstr2,
-    repeat char[3] rfs,
-    repeat zchar[3] rfz,
-    repeat Inner2,
-    repeat Grp {
-        u8 k,
-        char[2] v,
-    },
-    SeqNum,
-    SeqNum seq2,
-    repeat SeqNum seqs,
-    Symbol,
-    AltSymbol alt,
-    ZSym,
-    Note,
-    repeat Symbol syms,
-    Price px,
-    u16 MsgType,
-    u32 BodyLen @lengthOf(Body),
-    match MsgType as Body {
-        1 : Logon,
-        [2, 3] : Logout,
-        7 : Logon,
-        9 : Empty,
-    },
-    u32 Checksum @calculatedFrom(""CRC32""),
-}
-")).
-Eval vm_compute in ("<<<M578>>>" ++ check (runes_of_ascii "packet u128 {
-@calculatedFrom(
-""" ++ [28040; 24687]%N ++ runes_of_ascii """ )
-stringy { match falsey
-as Z9_ { // @lengthOf(
-""packet"": float
-    //	t
-    , } , match uint8x as x_y_z
-{ 3 :i64_ ,
-//
-// " ++ [128512]%N ++ runes_of_ascii " emoji
-""CRC32"" :float
-    , 007 : falsey ,  0123456789 : //x
-Packet , [
-    ""it's""
-// packet A { u8 x, }
-// " ++ [128512]%N ++ runes_of_ascii " emoji
-, ""\" ++ [233]%N ++ runes_of_ascii """ ] : calculatedFrom,}
-,uint16
-uint8x `it's`
-, repeat i8 repeatCount,} ,
-u8 string_
-,
-    // trailing space 
-    @lengthOf(
-    body ) @rightPad (
-    '\x00' ) zchar[ 65535 ] trueish @calculatedFrom(
-""`tick`"" ) , @rightPad ( ) charz @lengthOf(
-A) , MetaDataX,
-@tag(
-    3) char[ 3 ] x	`doc`
-,repeat
-    i8i8 {
-    string Z9_,  } ,
-} // @lengthOf(
-root packet chars
-    // " ++ [27880; 37322]%N ++ runes_of_ascii "
-    {
-    string_ , u16
-trueish `
-` , float32 Pad
-@lengthOf(metadata )
-`" ++ [28040; 24687; 31867; 22411]%N ++ runes_of_ascii "`,repeatCount ,  @lengthOf( x )	char[]uint8x @lengthOf( T )// a // b
-`tab	here`	, A	{ char rootA // packet A { u8 x, }
-`
-` // a // b
-, int64 f32a
-    //	t
-    ,
-    Packet { repeat i16
-    Foo
-`it's` , /// triple
-zchar[65535 ]
-stringy
-    @calculatedFrom( ""1"" )`
-` , // trailing space 
-}  , int
-    // " ++ [128512]%N ++ runes_of_ascii " emoji
-    ,
-    } , // trailing space 
-charz
-// `tick` ""quote"" 'q'
+Eval vm_compute in ("<<<M2051>>>" ++ check (runes_of_ascii "  options
+
+    {lengthOf
+    = 
+""CRC32""
+;stringy= uint16
+
+    ;u8x
+= float32
+;
+x_y_z  
+  // c
+  =zchar[007 ]
+repeatCount	=""a\""b"";  
+      // c
+
 //	t
-metadata,
-@calculatedFrom( ""\" ++ [233]%N ++ runes_of_ascii """
-)
-match o
-as matchKey {	""abc""
-: zchar , // " ++ [27880; 37322]%N ++ runes_of_ascii "
-""CRC32"": As// packet A { u8 x, }
-""packet"": Packet// `tick` ""quote"" 'q'
-,
-    ""x y"" :pack
-[0 , 10 , 00 ,  ""\n"",65535,""1"" ]:
-As // trailing space 
-, } /// triple
-, //
-}options
-{ } packet leftPad {@calculatedFrom( ""a\\""
-    ) @lengthOf(len
-    ) @tag(
-1)
-char[
-255] u8x,
-    @calculatedFrom( ""// no comment"" )
-    int32 //	t
-len@lengthOf( _x ) // " ++ [27880; 37322]%N ++ runes_of_ascii "
-,@calculatedFrom(
-""" ++ [28040; 24687]%N ++ runes_of_ascii """ ) repeat Logon int `" ++ [28040; 24687; 31867; 22411]%N ++ runes_of_ascii "`
-    ,
-    match As as
-packetx {
-    ""a	b"" : uint8x ,
-    // a // b
-    }
-, char[ 0
-    ] charz @lengthOf( i8i8) , chars
-metadata , @tag( 0123456789)
-//
-// trailing space 
-BodyLength // packet A { u8 x, }
-, }
-")).
-Eval vm_compute in ("<<<M939>>>" ++ check (runes_of_ascii "MetaData
-Logon {
-    string_ MetaDataX
-`
-` ,}root packet Pad
-{ asx
-@lengthOf(BodyLength )
-,
-}
-    packet
-Pad {
-@calculatedFrom( ""a	b""
-) zchar[ 7]x	`a\` , @lengthOf(msg_type
-// " ++ [27880; 37322]%N ++ runes_of_ascii "
-// trailing space 
-) int32 Logon  @lengthOf(u128//	t
-)
-`two words`,	@lengthOf(asx)
-match o
-    as
-    asx {1 : crc , 00:f32a, }
-    ,
-char[ 1
-    ]
-leftPad @lengthOf(
-    string_ ) `
-` , f32
-    // a // b
-    trueish @calculatedFrom(//x
-"""" )``
-    // " ++ [128512]%N ++ runes_of_ascii " emoji
-    ,As ,
-x_y_z
-{ match	Packet as int { 007: x , // packet A { u8 x, }
-""" ++ [28040; 24687]%N ++ runes_of_ascii """  :
-    options1 , ""packet""
-:// packet A { u8 x, }
-repeatCount ""\n"" :
-x
-, }
-    //
-    ,char[]
-    i8i8 @lengthOf( x_y_z )
-`two words` ,match crc as
-x_y_z{""CRC32"" : Z9_, } , packetx ,
-} ,
-repeat
-    char[0
-// packet A { u8 x, }
-// `tick` ""quote"" 'q'
-] asx , @calculatedFrom(
-""1"" ) char[
-00 ] float,repeat i32 msg_type	,
-} packet x_y_z { // `tick` ""quote"" 'q'
-@calculatedFrom(
-    ""a\\"")
-    @calculatedFrom( ""packet""  ) uint8x @calculatedFrom( """" ) ,
-    //	t
-    @lengthOf( x )	u8x x, @calculatedFrom(
-    ""a	b"" ) int16 pack
-// packet A { u8 x, }
-//x
-, match  Pad as
-T
-//	t
-// @lengthOf(
+	}
+
+MetaData trueish 
 {
-    [ 00 ] : leftPad ,
-    ""CRC32""
-    : body	, //x
-3 :
-    zchar
-1:  u8x  7 : options1	,
-4294967296 :falsey
-    /// triple
-    , } , }
-    packet T {
-    zchar[
-65535 ]//x
-roots ,
-    int x`crlf
+    As roots	`" ++ [28040; 24687; 31867; 22411]%N ++ runes_of_ascii "`
+    ,char[
+00	]
+
+    Packet 	 // c
+    	,
+
+} root packet roots
+
+    {
+	int8 Logon
+	,  body @lengthOf(	lengthOf  )
+
+`
+` ,
+@rightPad ('0'	) Packet @calculatedFrom(""x y"" 
+)`a\` ,@lengthOf(
+	T	)
+match	matchKey  as  _x 	 // trailing space 
+
+  { """ ++ [128512]%N ++ runes_of_ascii """
+
+    :	stringy, 
+4294967296  :
+	x_y_z
+
+    , ""\n""
+: leftPad[
+	42
+	,
+	42
+,
+
+    ""it's""
+	,""\n"" ,	""// no comment"" ]	:	asx
+	,
+
+}
+,
+
+char[
+	10 // trailing space 
+  ] BodyLength
+
+    ,
+	@leftPad
+( 
+'0'
+
+    )
+char[] 
+      /// triple
+  Z9_ `crlf
 line`
-,@lengthOf( //	t
-int)charz {	i64_
-    `" ++ [28040; 24687; 31867; 22411]%N ++ runes_of_ascii "` ,zchar[
-    // `tick` ""quote"" 'q'
-    42 ]
-    len
-    // @lengthOf(
-    @calculatedFrom( // " ++ [128512]%N ++ runes_of_ascii " emoji
-""" ++ [233]%N ++ runes_of_ascii "t" ++ [233]%N ++ runes_of_ascii """ ),	repeat
-i8 o , // " ++ [27880; 37322]%N ++ runes_of_ascii "
-char[0 ] // a // b
-options1`doc` , } ,
-@lengthOf( roots ) string
-Header, }")).
-Eval vm_compute in ("<<<M3836>>>" ++ check (runes_of_ascii "
-packet  // c
-lengthOf{
+	, string	falsey
+
+    ,
+	int16  // c
+	  asx
+@calculatedFrom( 
+""x y""  ),
+u128
+
+Z9_
+    `it's`  ,	@rightPad 
+    // " ++ [128512]%N ++ runes_of_ascii " emoji
+  // @lengthOf(
+(
+'0')	Packet{ 
+	// " ++ [128512]%N ++ runes_of_ascii " emoji
+	int64
+float , repeat leftPad {
+
+repeat
+    Z9_
+	{
+	match T	as
+lengthOf
+{ ""`tick`""	:
+
+msg_type	""1"" :
+x_y_z ,0: chars ,}
+, }
+,repeat
+
+trueish{zchar[
+    255 ]  crc
+    `doc`
+
+    , char
+	Logon @lengthOf(
+
+    _x 
+	    // " ++ [128512]%N ++ runes_of_ascii " emoji
+  )
+,
+    //
+
+a1
+
+`doc`,  
+  //x
+
+	//	t
+  },
+
+    match
+
+msg_type  as
+
+    zchar { ""it's""  // c
+    :
+	    /// triple
+  // packet A { u8 x, }
+  body
+,  """ ++ [28040; 24687]%N ++ runes_of_ascii """
+:  // `tick` ""quote"" 'q'
+    u
+    , } ,  }
+	,
+} ,  }  packet 	 // `tick` ""quote"" 'q'
+	As	// " ++ [27880; 37322]%N ++ runes_of_ascii "
+	{ @leftPad(
+// c
+'\x00'
+)
+
+@tag(  255
+	) @lengthOf( 	 // `tick` ""quote"" 'q'
+    o)
+
+zchar[
+42] string_ @calculatedFrom(
+
+    ""a\""b""  )	`" ++ [28040; 24687; 31867; 22411]%N ++ runes_of_ascii "`
+
+    ,
+	char[]
+
+    repeatCount//	t
+	@lengthOf( calculatedFrom
+    ) , metadata 
+@calculatedFrom(
+    ""abc""
+    )
+`two words` 
+, 
+	    // `tick` ""quote"" 'q'
+	// c
+  @lengthOf(
+
     matchKey
 
-    `doc`
-,
-i8i8 
-{
-
-match crc as zchar
-    {[ 1 ,
-""abc"", 0 , 0123456789 ,
-	65535] :
-
-chars, 
-""\n"":
-
-uint8x""a\""b"" :int ,
-
-    [	""`tick`""
-    ,
-	""a	b"" 
-,
-""a	b"" , 4294967296 
-,
-	4294967296
-    ,
-""""
+)  match
+	packetx
+	as 
+falsey {
+007 :
+A
 
     ,
-""a\""b"" ]
+""1"" :	packetx ,  //
+    7
 
+:  charz ,
+[ 65535	]
 :
 
-    string_	, 0123456789
-: // @lengthOf(
+stringy	65535
+:	a1
 
-  A, ""packet""
-        // a // b
+[""a	b"" ,
 
-	:
-    asx}
+    1
+] :Logon  
+      // a // b
+		// " ++ [128512]%N ++ runes_of_ascii " emoji
+  } 
+,
 
-,	char[00 
-      //
-	  //
+    }
 
-  ]  u8x
-	`u8 x,`
+")).
+Eval vm_compute in ("<<<M2000>>>" ++ check (runes_of_ascii "
+root packet
+x_y_z { match
+	Z9_
+as
+    u  {
+255 : pack
+    ,	255	:
+u128 
+,
+	007 :  float
+""\n"":	options1 
+,
+
+    [""" ++ [28040; 24687]%N ++ runes_of_ascii """  ,
+
+    1
+    ]
+    :
+	Z9_
+
+    """ ++ [28040; 24687]%N ++ runes_of_ascii """	:  chars  ,
+
+}
+, u8 
+_x
+	@calculatedFrom(  
+  // a // b
+  """ ++ [28040; 24687]%N ++ runes_of_ascii """  )	`say ""hi""`
+,
+@tag( 
+3  ) 
+match 
+a1
+
+    as
+
+msg_type
+{	[
+    ""\n"" // a // b
+    , 
+255 	 //x
+  ,0 ]
+
+: crc 
+,
+
+    } 
+,
+    }
+root
+
+    packet
+	o  {
+    match tag
+
+as 
+_x { 007
+    :
+	x
+
     ,
+10:charz
+, ""{,}""
 
-    u8x
+    :	body
+	,""" ++ [233]%N ++ runes_of_ascii "t" ++ [233]%N ++ runes_of_ascii """ 
+:
 
-{  uint32 float @calculatedFrom(
-""{,}""	),
-    //	t
-      // " ++ [128512]%N ++ runes_of_ascii " emoji
-	char[
-0
-// trailing space 
-// `tick` ""quote"" 'q'
-	]
+len """ ++ [128512]%N ++ runes_of_ascii """ :u	,
+	},
+u64  u@calculatedFrom(
+	""x y"" 
 
-zchar
-, } ,falsey
+    // c
+	// " ++ [27880; 37322]%N ++ runes_of_ascii "
+  )
+`it's`
+,@lengthOf( trueish
+)
+repeat 	 // packet A { u8 x, }
+  uint8
+u8x
 
-    @calculatedFrom(
+    `" ++ [28040; 24687; 31867; 22411]%N ++ runes_of_ascii "`// a // b
+  , @calculatedFrom(
 
-    """ ++ [128512]%N ++ runes_of_ascii """	) ,
+    ""\n"")
 
-}// packet A { u8 x, }
-, 
-@calculatedFrom(
+    @rightPad ( )@leftPad (
+'\x00')
+	repeat  uint32 float ,
+	@lengthOf( A
 
-""1"" ) 
-zchar[	255] 
-	// @lengthOf(
-	//
-    metadata @lengthOf(
-packetx ) ,Header
+    ) @tag( //	t
+		0123456789 
+)@rightPad	(' '
 
-@calculatedFrom(
-""CRC32""
-)  ,
-	// c
-	  // trailing space 
-	float@lengthOf(
-    crc
-) 
-``
-,
-	@tag(  42
+) zchar[ 10] 
+// " ++ [128512]%N ++ runes_of_ascii " emoji
+o	// packet A { u8 x, }
 
-) @lengthOf(A
+  ,
+    uint8x
 
-)@lengthOf(u128 ) 
-stringy 	 // " ++ [27880; 37322]%N ++ runes_of_ascii "
-    	`" ++ [233]%N ++ runes_of_ascii "` , 
-@leftPad  (
-'0')char[ 4294967296	]
-float
-,
-	u
-	`" ++ [233]%N ++ runes_of_ascii "`	,
-	@lengthOf( falsey
-    )	// @lengthOf(
-    @lengthOf(/// triple
-	lengthOf)
-	repeat 
-f32 matchKey
+    @calculatedFrom( ""a\\""  // " ++ [27880; 37322]%N ++ runes_of_ascii "
+  	) `
+`,
+    body  , repeat //	t
+
+	char[	10]	string_ `tab	here` ,
+
+}
+
+root	packet
+
+roots
+	{}
+
+packet
+
+    u {@calculatedFrom(
+""" ++ [128512]%N ++ runes_of_ascii """ )
+    f64 Logon  // `tick` ""quote"" 'q'
+		@calculatedFrom(
+
+""1"" 
+) `a\`
+    , int16	trueish
 
     `line1
-line2`	, }
-    options
+line2`
 
+    ,  //
+    	zchar[ 0123456789
+]
+    // a // b
+	BodyLength `two words`
+    ,
+    float32  i8i8
+@lengthOf(
+metadata
+
+)
+`// not a comment`
+    ,i32 leftPad
+	,} ")).
+Eval vm_compute in ("<<<M1547>>>" ++ check (runes_of_ascii "// top
+options // c0
 {
-    lengthOf
-= string
+    // c1
+LittleEndian // c2
+= // c3a
+  // c3b
+true
+    // c4
+; StringPrefixLenType // c6
+= // c7
+u16 // c8
+; // c9a
+  // c9b
+ArrayPrefixLenType
+    // c10
+= // c11
+u64
+    // c12
+; // c13
+} // c14
+packet Fill // c16a
+  // c16b
+{ // c17a
+  // c17b
+} packet // c19
+Logon // c20a
+  // c20b
+{ repeat
+    // c22
+char[ // c23
+3 // c24
+] // c25
+Tail // c26a
+  // c26b
+, // c27
+zchar[ // c28
+6 // c29
+] // c30
+venue , // c32
+repeat
+    // c33
+string // c34
+Side2 // c35a
+  // c35b
+,
+    // c36
+} root // c38a
+  // c38b
+packet
+    // c39
+Cancel
+    // c40
+{ char[] // c42a
+  // c42b
+Flags // c43a
+  // c43b
+, char[] OrderId
+    // c46
+, zchar[
+    // c48
+6
+    // c49
+] // c50
+msgKind // c51a
+  // c51b
+,
+    // c52
+Fill
+    // c53
+, char[] // c55
+Acct
+    // c56
+, // c57a
+  // c57b
+u8 // c58
+f1 // c59a
+  // c59b
+,
+    // c60
+match f1
+    // c62
+as // c63a
+  // c63b
+Body // c64a
+  // c64b
+{ 188
+    // c66
+:
+    // c67
+Fill , 5 : Logon // c72
+, // c73a
+  // c73b
+} , // c75
+u32 // c76
+clOrdID // c77a
+  // c77b
+@calculatedFrom( ""CRC32""
+    // c79
+)
+    // c80
+,
+    // c81
+} // c82
+")).
+Eval vm_compute in ("<<<M1568>>>" ++ check (runes_of_ascii "// top
+options // c0
+{
+    // c1
+FixedStringPadFromLeft = // c3
+true
+    // c4
 ;
-
-    }	packet	falsey { @tag(
-1)int16 
-repeatCount  @lengthOf(
-charz
-
-) 
-`a\` // @lengthOf(
-  ,
-
-repeat
-	u64	MetaDataX `say ""hi""`
-	,}
-	options{
-
-    x = // packet A { u8 x, }
-
-	""abc""}MetaData	BodyLength
-
-{ zchar[4294967296
-
-    ] 
-zchar
-    ,} ")).
-Eval vm_compute in ("<<<M174>>>" ++ check (runes_of_ascii "root
-packet charz {// a // b
-@rightPad
-    //	t
-    (
-) @lengthOf(
-    Pad ) @rightPad ( ' '
-) MetaDataX @lengthOf( BodyLength
-) `" ++ [28040; 24687; 31867; 22411]%N ++ runes_of_ascii "`
+    // c5
+FixedStringPadChar // c6a
+  // c6b
+= ' ' // c8a
+  // c8b
+; // c9a
+  // c9b
+} packet // c11a
+  // c11b
+Reject // c12a
+  // c12b
+{ // c13
+} packet Fill // c16a
+  // c16b
+{ repeat // c18a
+  // c18b
+i16 Tail ,
+    // c21
+} root // c23
+packet // c24a
+  // c24b
+Trade // c25
+{
+    // c26
+float64
+    // c27
+Ref // c28
 ,
-    repeatCount /// triple
-A
-`
-`,	@tag(
-    4294967296) // trailing space 
-metadata u8x ,
-    @calculatedFrom( ""packet"" ) repeat Pad // @lengthOf(
-`say ""hi""`
-,  } root packet// trailing space 
-rootA {// " ++ [27880; 37322]%N ++ runes_of_ascii "
-rootA	{ string trueish ,
-}
-    ,
-} MetaData
-lengthOf {
-    } packet _x { repeat msg_type { char[ 65535 ]
-crc ,	lengthOf
-    {
-    Packet ,
-    // c
-    string_
-    @calculatedFrom(""a\""b""),
-f32 rootA//
+    // c29
+Fill // c30a
+  // c30b
+, // c31a
+  // c31b
+u8 // c32a
+  // c32b
+Note // c33a
+  // c33b
+, u16 // c35
+count // c36a
+  // c36b
+@lengthOf( Body ) , // c40
+match // c41a
+  // c41b
+Note // c42a
+  // c42b
+as Body // c44
+{ // c45
+[ // c46
+98 // c47a
+  // c47b
+, // c48
+101 // c49
+] // c50a
+  // c50b
+:
+    // c51
+Fill
+    // c52
+, 34 // c54a
+  // c54b
+: // c55
+Reject // c56
 ,
-}	,
-// " ++ [27880; 37322]%N ++ runes_of_ascii "
-// `tick` ""quote"" 'q'
-} ,i16 int  , @lengthOf( matchKey) //	t
-i8i8 int `two words` ,
-// packet A { u8 x, }
-// @lengthOf(
-repeat Logon{
-repeat
-    //	t
-    uint8	f32a ,
-    a1
+    // c57
+} // c58
+, // c59
+u32 // c60a
+  // c60b
+x // c61
+@calculatedFrom( // c62a
+  // c62b
+""CRC32"" // c63a
+  // c63b
+)
+    // c64
+, // c65
+} // c66
+")).
+Eval vm_compute in ("<<<M220>>>" ++ check (runes_of_ascii "
+MetaData BodyLength
+{  int32 chars
+    `u8 x,` , char[
+0123456789 ] // c
+matchKey `a\` ,
+char[]
     //
-    { repeat char[1
-] Foo , }  , uint8x
-// @lengthOf(
-// packet A { u8 x, }
-{ char[ 4294967296 ]
-T `{ , }`
-, u32
-    repeatCount `" ++ [28040; 24687; 31867; 22411]%N ++ runes_of_ascii "`
-    // c
-    ,} , }
-    ,
-repeat MetaDataX
-, char[ 4294967296 ] i8i8//
-@lengthOf( _x ) ,}
-packet falsey {
-    tag
-{ char[ // " ++ [27880; 37322]%N ++ runes_of_ascii "
-00
-    // `tick` ""quote"" 'q'
-    ] int@lengthOf( u128
-    ) ,
+    A , } packet//x
+u128
+    {}
+packet rootA
+{float64// c
+roots ,  @lengthOf(
+    float// `tick` ""quote"" 'q'
+)//	t
+repeat BodyLength { BodyLength{
+    repeat
+f64 Packet, char[ 7
+/// triple
+//	t
+] As `doc` ,
 }
-,roots body ,u16 stringy
+    ,
+} , calculatedFrom
+{i16  o@lengthOf(
+    Logon ) `doc`, Foo u128 ,	char// @lengthOf(
+u @lengthOf(  _x
+) ,  },@tag( 1  )@rightPad // `tick` ""quote"" 'q'
+(' '
+) char[]msg_type
 // trailing space 
-// @lengthOf(
-@lengthOf( Pad ) `line1
-line2` ,
-stringy
-@lengthOf(  chars ) ,uint8 lengthOf
-`" ++ [233]%N ++ runes_of_ascii "` ,
-    // " ++ [128512]%N ++ runes_of_ascii " emoji
-    }")).
-Eval vm_compute in ("<<<M232>>>" ++ check (runes_of_ascii "packet falsey { int64
-BodyLength , @tag( 4294967296) // packet A { u8 x, }
-@leftPad (
-    )
-match _x as Foo
+// trailing space 
+, } packet
+calculatedFrom
+{
+    char[] rootA@calculatedFrom( ""a	b"" ) ,
+}	options
 //	t
 // packet A { u8 x, }
-{ ""\n"": asx
-// `tick` ""quote"" 'q'
-// `tick` ""quote"" 'q'
-[ ""{,}""
-,	4294967296, """ ++ [128512]%N ++ runes_of_ascii """//	t
-, """ ++ [28040; 24687]%N ++ runes_of_ascii """,
-""packet"", ""packet""
-    // " ++ [27880; 37322]%N ++ runes_of_ascii "
-    , ""x y"" ,
-// trailing space 
-// " ++ [128512]%N ++ runes_of_ascii " emoji
-7 ]	: x_y_z	, } , // `tick` ""quote"" 'q'
-A len`// not a comment`
-    ,
-    //
-    repeat char[]
-i64_ `crlf
-line` ,
-// trailing space 
-// trailing space 
-repeat char[] u `line1
-line2`	, tag {string metadata ,
-    } ,
-// " ++ [27880; 37322]%N ++ runes_of_ascii "
-// " ++ [128512]%N ++ runes_of_ascii " emoji
-char[3
-    ] falsey @lengthOf(
-    leftPad ) `crlf
-line`
-,  } root	packet
-MetaDataX {@lengthOf( //
-u8x )
-    match f32a as Header {[ ""a\""b""
-//x
-// `tick` ""quote"" 'q'
-,255]:  u8x , ""packet""
-:
-uint8x
-    ,""1""
-:
-_x , },
-    Packet `doc` , zchar[
-    3 // " ++ [128512]%N ++ runes_of_ascii " emoji
-] u128 @lengthOf( asx  ) ,
-    }  MetaData x/// triple
 {
-// `tick` ""quote"" 'q'
-// `tick` ""quote"" 'q'
-As  roots , char[
-10	] crc
-// " ++ [128512]%N ++ runes_of_ascii " emoji
+    o =
+""// no comment"" matchKey
+    = '\x00' ;
+    u
+    = """"
+leftPad = ""CRC32""; A= ""CRC32"" ; } // trailing space ")).
+Eval vm_compute in ("<<<M119>>>" ++ check (runes_of_ascii "packet
+Pad {
+@lengthOf(stringy)MetaDataX  @calculatedFrom(""" ++ [28040; 24687]%N ++ runes_of_ascii """ ) `{ , }` ,
+//x
 /// triple
-`{ , }` ,
-    BodyLength
-asx  `u8 x,` ,matchKey i8i8 , falsey pack `" ++ [233]%N ++ runes_of_ascii "`,leftPad metadata ,
-    }
-options { pack	= 0 tag
-= f32 i64_ =""abc""	;
+char[ 0123456789 ]leftPad @lengthOf( float
+), asx leftPad `u8 x,` ,
+    @calculatedFrom(""\" ++ [233]%N ++ runes_of_ascii """ )
+    repeat  rootA
+    matchKey `" ++ [28040; 24687; 31867; 22411]%N ++ runes_of_ascii "`, @lengthOf( stringy
+    ) /// triple
+uint8x msg_type `u8 x,`, // c
+char[ 3
+]
+stringy `tab	here`  ,
+}
+MetaData metadata{ string_ zchar , float32 u128	,
+char[]
+    //	t
+    u128//x
+,} options
+    // trailing space 
+    { zchar =""" ++ [28040; 24687]%N ++ runes_of_ascii """ ;
+msg_type = 007 ;	repeatCount = '\x00' ;	} packet
+_x { }  options
+{
+    asx
+=
+true;
+lengthOf =
+'0'  i8i8= '0'  crc =
+""abc""
+    /// triple
+    ; Packet
 // " ++ [128512]%N ++ runes_of_ascii " emoji
-// " ++ [128512]%N ++ runes_of_ascii " emoji
-f32a=
-    true ; } packet Foo { }
-")).
-Eval vm_compute in ("<<<M4015>>>" ++ check (runes_of_ascii "
+// trailing space 
+= ' ' } // a // b")).
+Eval vm_compute in ("<<<M279>>>" ++ check (runes_of_ascii "
+MetaData matchKey { i16
+lengthOf, int16
+    asx `it's`
+    ,
+    chars metadata `
+` , char[ 00 ] u128 ,// " ++ [128512]%N ++ runes_of_ascii " emoji
+zchar[ 007 ] falsey
+,  uint64 packetx
+, }
+    packet string_
+    {
+}root
+packet stringy{u64 packetx	@lengthOf( falsey // @lengthOf(
+) `crlf
+line` , falsey options1
+    , repeat char[] calculatedFrom , @rightPad ( '\x00' )
+i64 // c
+charz
+    @lengthOf(
+    x_y_z )
+    `u8 x,`,
+// @lengthOf(
+//x
+@lengthOf( rootA )char[] BodyLength `it's`
+, msg_type@calculatedFrom( // trailing space 
+""packet"") ,
+    // " ++ [27880; 37322]%N ++ runes_of_ascii "
+    lengthOf {zchar[
+65535	]tag
+`
+`
+    , }
+    , } 	 ")).
+Eval vm_compute in ("<<<M1559>>>" ++ check (runes_of_ascii "options {
+
+    LittleEndian= false
+
+;ArrayPrefixLenType=
+	u8 ;  FixedStringPadChar
+    =  '0' ;	}	packet
+Order
+	{
+	InNote94{
+	f32 f1 ,
+	f64
+Side2 ,
+
+    repeat InTail47	{
+char[]
+
+seqNo ,
+
+    char[]
+Tail 
+,	char[]	lastPx,},
+
+    }, 
+zchar[ 7 
+] f1
+
+    ,u8
+
+Side2
+	,}
+root
 packet
-	metadata
+	Reject {repeat
+
+    char[
+    4
+    ]Flags
+
+,
+	InPrice63
+{
+
+    InSeqno41
 
     {
-	zchar[
-255
-    ] rootA@lengthOf(  //	t
-  	stringy
 
-    )``, 
-Z9_ @calculatedFrom( ""\n""),
+    repeat
 
-    i64_	,
-@calculatedFrom(""abc"" ) 
-body `crlf
-line`
-
-, 	 // packet A { u8 x, }
-
-match metadata
-
-as
-leftPad {
-
-""\n"" : stringy ,  ""it's""
-	:
-
-rootA
-,  [ ""packet""
-    , 
-10	]:
-
-    lengthOf 
-,1
-
-    :
-    zchar	, }  ,@tag(	3 
-) //x
-
-char[] x_y_z 
-`u8 x,`
-,f64 
-o
-
-    @lengthOf( o ), @calculatedFrom(	// c
-	""" ++ [28040; 24687]%N ++ runes_of_ascii """
-)	zchar[
-007 ]
-options1 @lengthOf(msg_type  )
-,
-    } MetaData	T
-{  int16
-
-    u8x
-    ,char[ 
-1 ] 
-repeatCount,  uint16
-	i64_ `u8 x,`
-,  Header 
-x	``// " ++ [128512]%N ++ runes_of_ascii " emoji
-,stringy 
-msg_type
-    `" ++ [28040; 24687; 31867; 22411]%N ++ runes_of_ascii "`
-	, } packet
-i8i8 {
-} packet
-    Header 
-{
-	repeat Z9_
-
-    roots
-, }
-
-    packet calculatedFrom
-    {  T
-    @lengthOf( Foo
-    )
-`u8 x,`
-	// " ++ [128512]%N ++ runes_of_ascii " emoji
-	,	match
-tag
-as 
-    //	t
-
-// a // b
-    	charz{
-""\" ++ [233]%N ++ runes_of_ascii """ 
-:
-string_
-	,	[ 1 ,
-""" ++ [28040; 24687]%N ++ runes_of_ascii """
-
-,  /// triple
-
-""CRC32""  ]
-	: falsey , [
-007 
-]
-
-:
-float ,
-    3 
-: 
-MetaDataX , 
-[  ""`tick`""] :
-	u,
-1
-    // trailing space 
-  // packet A { u8 x, }
-: metadata ,
-    } 	 // `tick` ""quote"" 'q'
-	,
-    } ")).
-Eval vm_compute in ("<<<M1060>>>" ++ check (runes_of_ascii "packet i64_{
-@tag( 4294967296
-) As
-{ repeat f32
-BodyLength ,
-// trailing space 
-// a // b
-i64_ @calculatedFrom(""{,}""
-// @lengthOf(
-// a // b
-) ,	repeatCount
-packetx `" ++ [28040; 24687; 31867; 22411]%N ++ runes_of_ascii "`
-    ,}, @lengthOf( _x )
-options1 ,
-    //	t
-    options1 , @rightPad (
-'0') repeat // packet A { u8 x, }
-string Foo
+i8 OrderId  ,repeat
+i32
+    clOrdID
+, char[ 
+9  ]
+tag7,char[]
+lastPx,
+}
     ,
-    char[] string_@calculatedFrom(""a	b"" )// c
-`u8 x,` ,
-char[
-// packet A { u8 x, }
-// @lengthOf(
-65535]  x_y_z ,	repeat
-    options1 packetx/// triple
-, @lengthOf(
-matchKey )
-@calculatedFrom( ""\" ++ [233]%N ++ runes_of_ascii """) repeat
-    Logon // trailing space 
-asx , matchKey
-@lengthOf(
-// `tick` ""quote"" 'q'
-//
-lengthOf  )
-`u8 x,`
-    , // packet A { u8 x, }
-}root packet repeatCount{ @rightPad ( '\x00' ) u8 Packet `// not a comment`
-    , @calculatedFrom( ""CRC32""
-) i8i8 , repeat u{// `tick` ""quote"" 'q'
-char[255]u128 , i16
-    Packet `doc`, zchar[
-    3//
-]  BodyLength , char[]
-u
-    `say ""hi""`
-    ,
-} , int32 float ,i8 Logon , @lengthOf( rootA)  zchar[42 ] int @lengthOf( lengthOf ) , //
-repeat	char[ 42 ]
-metadata ,
-} packet falsey{ }
+	Order,uint8
+Side2 , 
+} ,
+}
 ")).
-Eval vm_compute in ("<<<M3642>>>" ++ check (runes_of_ascii "options {
-    StringPrefixLenType = u64;
-    ArrayPrefixLenType = u16;
-    FixedStringPadChar = ' ';
-}
-packet Logon {
-    i32 msgKind,
-    repeat InOrderid65 {
-        u8 pad0,
-    },
-    i8 tag7,
-    @leftPad(' ') char[12] x,
-}
-packet Leg {
-    char[] f1,
-    repeat char[5] Px,
-    InQty34 {
-        repeat char[6] Qty,
-        char[7] seqNo,
-        string count,
-    },
-    Logon,
-}
-packet Party {
-    @leftPad('0') char[10] OrderId,
-    string Tail,
+Eval vm_compute in ("<<<M1549>>>" ++ check (runes_of_ascii "options {
+    LittleEndian = true;
+    StringPrefixLenType = u16;
+    ArrayPrefixLenType = u64;
 }
 packet Fill {
-    zchar[5] venue,
-    zchar[3] clOrdID,
-    InRef95 {
-        InLastpx25 {
-            u8 pad0,
-        },
-        float64 OrderId,
-        i32 f1,
-        float32 x,
-        char[] seqNo,
-    },
-    repeat string seqNo,
 }
-root packet Heartbeat {
-    repeat Leg,
-    u32 seqNo,
-    u16 tag7,
-    u32 Flags @lengthOf(Body),
-    match tag7 as Body {
-        [195, 75] : Party,
-        171 : Fill,
-        78 : Logon,
-        142 : Leg,
+packet Logon {
+    repeat char[3] Tail,
+    zchar[6] venue,
+    repeat string Side2,
+}
+root packet Cancel {
+    char[] Flags,
+    char[] OrderId,
+    zchar[6] msgKind,
+    Fill,
+    char[] Acct,
+    u8 f1,
+    match f1 as Body {
+        188 : Fill,
+        5 : Logon,
     },
-    u32 Note @calculatedFrom(""CR\
+    u32 clOrdID @calculatedFrom(""CR\
 C32""),
 }
 ")).
-Eval vm_compute in ("<<<M4264>>>" ++ check (runes_of_ascii "
-packet 
-int 
-	// a // b
-  // @lengthOf(
-    {
-i16 Logon @calculatedFrom(	""a\\""
-	),  repeat
-
-    calculatedFrom`// not a comment`
-,@calculatedFrom(  
-      // @lengthOf(
-""CRC32"" ) Z9_  charz, 
-@lengthOf(Z9_ )  /// triple
-matchKey`u8 x,`  ,
-}  MetaData 
-asx { 
-} packet Packet
-	{@tag(
-
-    65535
-)	options1
-
-    , int
-@lengthOf(
-
-metadata
-)
-`it's` , 
-  //x
-
-	u8x
-{char[
-
-    00
-
-] Logon
-
-    ,
-
-repeat
-
-    i32
-    T
-	`// not a comment`	,chars { float64
-    msg_type
-    @lengthOf( body),
-f64
-Z9_ 
-,
-// a // b
-
-	// @lengthOf(
-    u16
-    string_ 
-@lengthOf(
-int )
-`doc`
-,	//x
-	repeatCount
-	@calculatedFrom(
-
-""x y""
-)
-
-, }
-
-,	}
-    ,
-	match
-A  /// triple
-	as 
-u{ [""packet""
-, ""x y""
-]
-: f32a
-, [ 65535	/// triple
-  ,
-00
-] :
-	stringy 255
-:
-
-    pack	, [ 0
-, ""`tick`"" ]:  x, 1
-: matchKey
-
-    , },}
-	packet
-roots{@calculatedFrom(
-	""\n""
-    ) char[
-65535
-    // a // b
-  	]Packet ,}
-")).
-Eval vm_compute in ("<<<M653>>>" ++ check (runes_of_ascii "
-packet
-    f32a { // c
-string len  @lengthOf( As ) // " ++ [128512]%N ++ runes_of_ascii " emoji
-`line1
-line2` , zchar[ 1//x
-] zchar `{ , }` , tag
-    //
-    @lengthOf( rootA) , // c
-string x_y_z `" ++ [28040; 24687; 31867; 22411]%N ++ runes_of_ascii "`, }packet crc {
-BodyLength
-@lengthOf(
-msg_type
-    ) , } MetaData packetx  {	} root packet lengthOf {repeat uint32	zchar , // " ++ [27880; 37322]%N ++ runes_of_ascii "
-T {
-msg_type // a // b
-{ f32a  { charz
-    stringy ``
-    , uint16
-u128
-, i16
-    BodyLength
-    @lengthOf(
-    x ) ,int8 //
-metadata `tab	here`, }
-// c
-// trailing space 
-,
-repeat Packet
-`doc` , // packet A { u8 x, }
-int8 A @calculatedFrom(
-""CRC32"" )
-    ,
-    }, Pad asx ,
-char[
-0 ]
-    repeatCount ,
-} ,
-    u16
-Z9_ `" ++ [233]%N ++ runes_of_ascii "` , @rightPad
-(
-    // @lengthOf(
-    '\x00' )
-    repeat Header
-//	t
-// " ++ [27880; 37322]%N ++ runes_of_ascii "
-`line1
-line2` ,@calculatedFrom(
-    ""\" ++ [233]%N ++ runes_of_ascii """ )
-char[]rootA @calculatedFrom( ""// no comment"" )`doc`
-, // a // b
-calculatedFrom `a\`,
-} packet As	{  }")).
-Eval vm_compute in ("<<<M4148>>>" ++ check (runes_of_ascii "// a // b
-packet rootA {
-    @lengthOf(Packet)
-    Logon {
-        char[7] T `
-        `,
-    },
-    @lengthOf(rootA)
-    repeat zchar[00] Header,
-    // c
-    // packet A { u8 x, }
-    repeat i8i8 {
-        match Foo as i8i8 {
-            [
-                4294967296, 1, 7, ""\" ++ [233]%N ++ runes_of_ascii """, ""\n"",
-                42, 255, 007
-            ] : options1,
-            4294967296 : pack,
-            """" : u8x,
-            [65535, ""\n""] : pack,
-            ""`tick`"" : Z9_,
-        },
-        float64 stringy,
-    },
-    @calculatedFrom(""`tick`"")
-    x {
-        A @lengthOf(crc),
-        char[00] roots,
-    },
-    @lengthOf(int)
-    // " ++ [27880; 37322]%N ++ runes_of_ascii "
-    @lengthOf(u8x)
-    // @lengthOf(
-    @lengthOf(a1)
-    uint16 trueish @calculatedFrom(""a\\""),
-    Header @lengthOf(MetaDataX) `say ""hi""`,
-    roots @lengthOf(a1),
-}
-// " ++ [128512]%N ++ runes_of_ascii " emoji")).
-Eval vm_compute in ("<<<M4389>>>" ++ check (runes_of_ascii "
-
-  packet	tag
-
-{
-
-float32
-repeatCount
-
-@calculatedFrom( ""// no comment"" )  , } packet
-    i64_	{char[ 
-00
-
-    ]  calculatedFrom
-
-    ,	// " ++ [128512]%N ++ runes_of_ascii " emoji
-@calculatedFrom( ""packet""
-)
-    i16
-
-    Packet,
-falsey
-
-    {  char[] 
-    // c
-    calculatedFrom  @lengthOf( 
-stringy) 
-  // `tick` ""quote"" 'q'
-  `` ,
-	} 	 //
-,
-    repeat 
-i32
-matchKey , repeat char[	7 ]  /// triple
-    	tag
-    `// not a comment`	,
-leftPad {	// @lengthOf(
-    	char[]i8i8 ,
-}
-, @lengthOf( x_y_z  )
-	char[
-3	]
-matchKey ``
-	,	float
-{
-    char[]	chars,	repeat zchar[1 ] 
-x_y_z ,
-}	,  i8  x_y_z
-    //	t
-
-  //
-	,  string
-	asx	//
-
-,
-
-}
-root	packet int {chars@lengthOf( Foo  )`a\`
-	, repeat char[ 0123456789
-
-] BodyLength ,
-    i8 
-T ,	@rightPad
-
-    (
-    ) u64  lengthOf	,
-
-    }
-")).
-Eval vm_compute in ("<<<M826>>>" ++ check (runes_of_ascii "packet As {// " ++ [27880; 37322]%N ++ runes_of_ascii "
-@leftPad	( '0'
-    /// triple
-    ) @lengthOf( i64_ )
-// @lengthOf(
-/// triple
-@leftPad (
-    '\x00' )
-    calculatedFrom  f32a,
-match x	as x_y_z { """"
-    // c
-    : body ,
-007
-:
-o
-,
-    [	""{,}"" ] :As, ""\n"" : stringy ,4294967296 : roots ,	}
-,	calculatedFrom ,
-match
-Pad as asx
-    { [ """ ++ [28040; 24687]%N ++ runes_of_ascii """ , ""1"" ,""a	b"" ,  3 ,""x y""
-,00
-    ,
-10 , ""\" ++ [233]%N ++ runes_of_ascii """ ] :Pad 65535 :x 7
-:x_y_z 3 : charz,""" ++ [233]%N ++ runes_of_ascii "t" ++ [233]%N ++ runes_of_ascii """
-:lengthOf
-} , @calculatedFrom(
-    ""{,}"" )
-@calculatedFrom( ""CRC32"" ) @calculatedFrom(""a	b"" )
-/// triple
-// trailing space 
-crc As /// triple
-,calculatedFrom{
-char[]	x
-    ``
-    , } , @rightPad// `tick` ""quote"" 'q'
-(
-    '\x00' )
-repeat char[]
-    asx /// triple
-`tab	here` ,f32a
-{ repeat char u
-,} // `tick` ""quote"" 'q'
-,
-}")).
-Eval vm_compute in ("<<<M892>>>" ++ check (runes_of_ascii "
-MetaData // " ++ [128512]%N ++ runes_of_ascii " emoji
-tag {
-char[] float,
-lengthOf
-    string_
-,
-    i32
-// c
-// a // b
-Foo , i64
-Logon
-    `// not a comment` , char[
-7]
-i8i8
-,
-// `tick` ""quote"" 'q'
-// c
-u16 pack, } options
-{ Packet=""x y"" u128
-    =
-7 u= u32 ; } // " ++ [128512]%N ++ runes_of_ascii " emoji
-packet
-    chars {
-    @tag( 0123456789) @calculatedFrom( ""x y"" )
-@rightPad (
-'0' ) f32 Pad @lengthOf( crc
-    // c
-    ) ,@tag( // trailing space 
-7
-) i8
-    o @calculatedFrom(
-""1""
-)
-,
-    @rightPad ( ' ' ) calculatedFrom {
-stringy float, // c
-repeat Packet roots
-`doc` ,repeat matchKey asx , repeat rootA roots  , } ,
-    @tag( 42 )@leftPad
-( '\x00' ) /// triple
-@calculatedFrom(""a	b"" )
-string
-    o @lengthOf( roots )	, // " ++ [128512]%N ++ runes_of_ascii " emoji
-}
-")).
-Eval vm_compute in ("<<<M944>>>" ++ check (runes_of_ascii "packet
-i8i8 {	@tag( 65535 ) i8i8 ,  repeat
-u8 uint8x , zchar[7] u
-    // " ++ [27880; 37322]%N ++ runes_of_ascii "
-    ,
-    repeat
-    char[] Packet , @leftPad ( '\x00' )i64_
-    { x `line1
-line2` ,//x
-} , // a // b
-repeat Foo{	len{match // a // b
-u  as
-    _x { 42
-    :  tag , [
-""" ++ [233]%N ++ runes_of_ascii "t" ++ [233]%N ++ runes_of_ascii """	] : _x[ 7 , 4294967296] : Packet , } ,float64 o
-`it's`,int64
-    options1 ,//	t
-} ,
-} , @leftPad
-(
-    '\x00' )match x //
-as zchar{	255:
-    //
-    o, 255 : Logon /// triple
-,	0	: Header ,007
-    : msg_type ,[
-    // packet A { u8 x, }
-    ""\n"" ,// packet A { u8 x, }
-007
-// " ++ [27880; 37322]%N ++ runes_of_ascii "
-// a // b
-, ""1"" ,  255// a // b
-,4294967296 , 0 ,007
-    ] :
-    int , } , }// trailing space 
-packet
-As
-{ }
-
-")).
-Eval vm_compute in ("<<<M4205>>>" ++ check (runes_of_ascii "packet As {
-    char[42] chars @calculatedFrom(""a\""b"") `it's`,
-    f32a falsey `// not a comment`,// " ++ [128512]%N ++ runes_of_ascii " emoji
-    string trueish `" ++ [28040; 24687; 31867; 22411]%N ++ runes_of_ascii "`,
-    @lengthOf(metadata)
-    @tag(65535)
-    @calculatedFrom(""`tick`"")
-    repeat Logon {
-        x_y_z @lengthOf(lengthOf),
-        uint32 u,
-        i64_ @calculatedFrom(""CRC32"") `a\`,
-        asx @calculatedFrom("""") `u8 x,`,
-    },
-    u16 _x ``,
-    repeat string_,
-    options1 f32a,
-    @calculatedFrom(""\n"")
-    Packet @lengthOf(zchar),
-}// `tick` ""quote"" 'q'
-
-options {
-    // a // b
-}
-
-packet a1 {
-    @tag(0123456789)
-    u8 uint8x `{ , }`,
-    u32 x_y_z `say ""hi""`,
-}")).
-Eval vm_compute in ("<<<M863>>>" ++ check (runes_of_ascii "
-packet
-    zchar // " ++ [128512]%N ++ runes_of_ascii " emoji
-{ match Foo /// triple
-as pack {""abc"": falsey ,10 : _x , }
-,@tag(	255 )string
-// @lengthOf(
-// a // b
-len `line1
-line2` ,
-}  MetaData o {metadata
-A
-    , string
-stringy , string	Foo	`say ""hi""`	, repeatCount // " ++ [27880; 37322]%N ++ runes_of_ascii "
-matchKey ,	x //x
-u8x , // " ++ [27880; 37322]%N ++ runes_of_ascii "
-} packet
-    _x { @leftPad// @lengthOf(
-(	'\x00') @calculatedFrom(
-    ""packet""
-) repeat
-// trailing space 
-// c
-Foo
-Z9_ , @lengthOf( As ) uint64
-_x @lengthOf( pack )
-/// triple
-// a // b
-,@rightPad // " ++ [128512]%N ++ runes_of_ascii " emoji
-(
-    '0'
-)match A as uint8x
-{	[0
-,  ""\" ++ [233]%N ++ runes_of_ascii """]:Packet ,007	: MetaDataX // " ++ [128512]%N ++ runes_of_ascii " emoji
-, ""1""	: trueish, }
-,}
-")).
-Eval vm_compute in ("<<<M3720>>>" ++ check (runes_of_ascii "packet x_y_z {
-    x_y_z @calculatedFrom(""CRC32""),
-    x {
-        char[0123456789] msg_type @lengthOf(float),
-        body calculatedFrom `line1
-                line2`,
-        match Header as stringy {
-            [255] : x,
-            10 : options1,
-        },
-    },
-    repeat char[] options1 `u8 x,`,
-    metadata @calculatedFrom(""\" ++ [233]%N ++ runes_of_ascii """) ``,
-    string falsey,
-    @rightPad(' ')
-    @tag(007)
-    string repeatCount,
-    options1 @calculatedFrom(""packet""),
-    @lengthOf(BodyLength)
-    char[] matchKey @calculatedFrom(""a	b""),
-}// packet A { u8 x, }")).
-Eval vm_compute in ("<<<M1164>>>" ++ check (runes_of_ascii "/// triple
-packet falsey { i32	BodyLength @calculatedFrom( ""// no comment""
-    ) ,
-i8i8 // " ++ [27880; 37322]%N ++ runes_of_ascii "
-body // trailing space 
-,@calculatedFrom(""packet"" ) repeat  char
-    stringy,@rightPad( // `tick` ""quote"" 'q'
-'0' )matchKey
-@lengthOf( a1 ) , match
-options1 as trueish { ""abc"":Logon
-,
-} ,
-T
-leftPad
-    , As {  metadata f32a ,
-//x
-// " ++ [27880; 37322]%N ++ runes_of_ascii "
-As @lengthOf( matchKey) , } , repeat Packet
-falsey `say ""hi""`
-    ,
-char[
-255
-] charz
-@lengthOf(
-// " ++ [128512]%N ++ runes_of_ascii " emoji
-// packet A { u8 x, }
-metadata
-    // " ++ [128512]%N ++ runes_of_ascii " emoji
-    ) // " ++ [128512]%N ++ runes_of_ascii " emoji
-`" ++ [28040; 24687; 31867; 22411]%N ++ runes_of_ascii "` , } options { }
-")).
-Eval vm_compute in ("<<<M391>>>" ++ check (runes_of_ascii "// " ++ [128512]%N ++ runes_of_ascii " emoji
-packet o {
-char[
-    // `tick` ""quote"" 'q'
-    4294967296 ]	tag ,@tag(	1
-    // a // b
-    )	zchar[ //
-0123456789]
-Logon ,stringy `it's`	, repeat string Logon
-, repeat
-f32 string_
-    //x
-    `u8 x,` ,
-@lengthOf( roots
-) A `" ++ [233]%N ++ runes_of_ascii "`
-    ,string_ ,
-@lengthOf( //	t
-i64_ ) @calculatedFrom(
-    ""1"" ) //	t
-f32a @lengthOf(
-f32a
-)
-    `doc`
-,
-    // `tick` ""quote"" 'q'
-    @calculatedFrom(
-""" ++ [28040; 24687]%N ++ runes_of_ascii """ )repeatCount `a\` ,}
-    /// triple
-    root
-packet //
-As { @tag( //
-0) char[] o`it's`
-,
-}packet matchKey{ }")).
-Eval vm_compute in ("<<<M880>>>" ++ check (runes_of_ascii "packet
-crc
-    {
-@leftPad ( ' ' ) u64 packetx @lengthOf(trueish ) ,
-float
-`line1
-line2` ,
-// packet A { u8 x, }
-// trailing space 
-}packet
-msg_type{zchar[ 3 ]i8i8
-@lengthOf( u )	,char[] roots , match x_y_z as
-uint8x
-{ ""a	b"":body	, } /// triple
-,
-@tag(
-42 )	@rightPad
-// `tick` ""quote"" 'q'
-//x
-(
-'0'	) Packet
-// " ++ [128512]%N ++ runes_of_ascii " emoji
-// packet A { u8 x, }
-@calculatedFrom( ""1"" // c
-) `
-`,@lengthOf(  MetaDataX ) i32 // `tick` ""quote"" 'q'
-trueish,
-@rightPad ( ' '  )
-    u128
-@lengthOf( _x )  , }")).
-Eval vm_compute in ("<<<M3819>>>" ++ check (runes_of_ascii "MetaData a1 {
-    f64 int,
-    i32 o `two words`,
-    char[3] lengthOf,
-    zchar[7] Header,
-    u32 x_y_z,
-    char[3] matchKey,
-}
-
-packet falsey {
-    @lengthOf(i8i8)
-    match MetaDataX as calculatedFrom {
-        00 : float,
-        // " ++ [27880; 37322]%N ++ runes_of_ascii "
-        7 : MetaDataX,
-        """ ++ [28040; 24687]%N ++ runes_of_ascii """ : options1,
-        [""a\\""] : charz,
-    },
-    match T as Z9_ {
-        [""it's""] : falsey,
-        255 : Foo,
-        ""a\\"" : Header,
+Eval vm_compute in ("<<<M1999>>>" ++ check (runes_of_ascii "packet i8i8 {
+    matchKey,
+    match trueish as roots {
+        [00] : int,
+        255 : u128,
+        3 : matchKey,
+        [65535] : trueish,
+        //	t
     },
 }
 
-MetaData lengthOf {
-    As rootA `doc`,
-}")).
-Eval vm_compute in ("<<<M64>>>" ++ check (runes_of_ascii "
-MetaData x_y_z // c
-{char As ,} packet packetx { asx @calculatedFrom( """ ++ [128512]%N ++ runes_of_ascii """
-) `a\`, MetaDataX // packet A { u8 x, }
-, @leftPad
-(
-    '0'
-)
-asx@lengthOf( f32a) `a\` , @lengthOf(	metadata )
-match	Packet as lengthOf { [ // `tick` ""quote"" 'q'
-""packet"", """ ++ [128512]%N ++ runes_of_ascii """] : // trailing space 
-Foo , 0
-    :
-    crc [
-10
-, ""CRC32"" ]
-:
-trueish
-//
-// " ++ [27880; 37322]%N ++ runes_of_ascii "
-,}	, } packet/// triple
-lengthOf { @lengthOf( msg_type )
-repeat zchar[7 ]  f32a `" ++ [233]%N ++ runes_of_ascii "`,
-int64 tag ,  }
-")).
-Eval vm_compute in ("<<<M851>>>" ++ check (runes_of_ascii "options {
-_x
-    =	""`tick`"";
-    body = 65535 packetx=int8
-; metadata =0123456789
-    ; }
-packet matchKey {
-@tag(
-//	t
-// c
-4294967296 ) match leftPad
-as T  { ""a\""b"" //
-:metadata // " ++ [128512]%N ++ runes_of_ascii " emoji
-, [ 42 , 007 , 0 ,
-00  ,
-// trailing space 
-// @lengthOf(
-7 ,	""a\\""
-,
-// c
-//	t
-""1"" ]
-    :metadata
-,
-[	"""" , ""a	b"" ,
-""CRC32""
-, 255 ,
-    ""a	b"" ]
-    : // c
-asx
-3 :
-_x , 65535 // @lengthOf(
-: _x , ""\n"" :
-Logon ,} ,
-    } options { }")).
-Eval vm_compute in ("<<<M3848>>>" ++ check (runes_of_ascii "root packet _x {
+packet packetx {
 }
 
-/// triple
-root packet rootA {
-    @lengthOf(msg_type)
-    @calculatedFrom(""a	b"")
-    Z9_ {
-        repeat char[] msg_type `two words`,
+packet u8x {
+    @tag(3)
+    match x_y_z as leftPad {
+        [7] : u8x,
     },
-}
-
-options {
-    Logon = 7;
-    u8x = '0'
-    len = '\x00'
-    Foo = 10;
-}
-
-MetaData leftPad {
-    // @lengthOf(
-    Packet i8i8 `a\`,
-    msg_type int `line1
-    line2`,
-    uint8x i8i8 `it's`,
-    BodyLength repeatCount,// packet A { u8 x, }
-}")).
-Eval vm_compute in ("<<<M4323>>>" ++ check (runes_of_ascii "
-
-  root
-    packet u128
-{
-	}
-    MetaData
-u128{
-int32 
-chars	,i8
-pack  // " ++ [27880; 37322]%N ++ runes_of_ascii "
-,
-
-    i8i8
-
-    options1
-,/// triple
-  char[]matchKey ,
-string	msg_type
-
-    `doc`//
-      ,
-    string
-	charz
-,
-} 
-        // `tick` ""quote"" 'q'
-  packet
-
-    // " ++ [128512]%N ++ runes_of_ascii " emoji
-    // @lengthOf(
-      BodyLength
-    {
-@lengthOf(As
-
-    )
-repeat
-_x
-	{
-    i64_
-    ,
-} , repeat char[
-    3
-    ]	roots ,	} ")).
-Eval vm_compute in ("<<<M1003>>>" ++ check (runes_of_ascii "options { Foo = ""packet""; }
-/// triple
-//	t
-options { // `tick` ""quote"" 'q'
-x
-=
-' ' ;
-} // @lengthOf(
-MetaData
-// a // b
-// c
-calculatedFrom{ char[ 65535 ]asx , zchar stringy `
-`	, roots packetx
-    ,zchar[ 3 ] options1	, float	u8x ,char  asx
-    `doc`,
-} packet lengthOf
-// c
-// c
-{
-uint16 // a // b
-calculatedFrom
-    @calculatedFrom(""x y"" ) , } // packet A { u8 x, }")).
-Eval vm_compute in ("<<<M1109>>>" ++ check (runes_of_ascii "options{ tag
-    =10// @lengthOf(
-u =00  stringy =	""`tick`"" ;} options { MetaDataX=
-    1 } // packet A { u8 x, }
-options{ lengthOf=
-255 ; int =  ""// no comment"" ;	falsey// packet A { u8 x, }
-= zchar[ 3
-    ] ;
-    // @lengthOf(
-    } MetaData asx { }
-MetaData a1{ int16 x_y_z , lengthOf matchKey ,	uint8 u128
-, x packetx , i32 charz, repeatCount As , }")).
-Eval vm_compute in ("<<<M387>>>" ++ check (runes_of_ascii "packet
-    // @lengthOf(
-    x
-{ int8// packet A { u8 x, }
-T
-, }
-options	{
-    } packet Z9_
-{
-@lengthOf(
-    //	t
-    A
-    ) As
-@calculatedFrom(
-""x y"" )	,
-} MetaData
-//
-// " ++ [128512]%N ++ runes_of_ascii " emoji
-Logon
-    {
-//x
-//x
-pack
-    trueish
-, /// triple
-rootA charz ,
-    leftPad leftPad ,char[]Logon ,
-// a // b
-// " ++ [27880; 37322]%N ++ runes_of_ascii "
-f64	matchKey ,falsey falsey `two words` ,}")).
-Eval vm_compute in ("<<<M4514>>>" ++ check (runes_of_ascii "// " ++ [128512]%N ++ runes_of_ascii " emoji
-options {
-}
-
-packet a1 {
-    // packet A { u8 x, }
-    //x
-    @lengthOf(Foo)
-    pack {
-        repeat matchKey leftPad,
-        zchar[7] zchar `{ , }`,
-        charz @lengthOf(x_y_z) `
-        `,
-    },
-}
-
-root packet roots {
-}
-
-options {
-    calculatedFrom = false;
-    o = int64;
-    u = ""a\\""
-    zchar = 42;
-}")).
-Eval vm_compute in ("<<<M1983>>>" ++ check (runes_of_ascii "MetaData
-    u { }  options {
-// c
-// @lengthOf(
-float = int8 ;rootA =false ; As =	int16 // `tick` ""quote"" 'q'
-repeatCount
-    // trailing space 
-    =
-    int16
-; u8x =
-    //	t
-    '\x00' ; string options	{
-    repeatCount
-= 0
-u128
-    //
-    = false ; i64_
-// trailing space 
-// `tick` ""quote"" 'q'
-= '0' ; //	t
-}
-")).
-Eval vm_compute in ("<<<M1931>>>" ++ check (runes_of_ascii "MetaData
-    u { }  options {
-// c
-// @lengthOf(
-float = int8 ;rootA =false ; As = =	int16 // `tick` ""quote"" 'q'
-repeatCount
-    // trailing space 
-    =
-    int16
-; u8x =
-    //	t
-    '\x00' ; } options	{
-    repeatCount
-= 0
-u128
-    //
-    = false ; i64_
-// trailing space 
-// `tick` ""quote"" 'q'
-= '0' ; //	t
-}
-")).
-Eval vm_compute in ("<<<M2060>>>" ++ check (runes_of_ascii "MetaData
-    u { }  options {
-// c
-// @lengthOf(
-float = int8 ;rootA =false ; As =	int16 // `tick` ""quote"" 'q'
-repeatCount
-    // trailing space 
-    =
-    int16
-; u8x =
-    //	t
-    '\x00' ; } options	{
-    repeatCount
-= 0
-u128
-    //
-    = false ; i64_
-// trailing space 
-// `tick` ""quote"" 'q\'
-= '0' ; //	t
-}
-")).
-Eval vm_compute in ("<<<M1967>>>" ++ check (runes_of_ascii "MetaData
-    u { }  options {
-// c
-// @lengthOf(
-float = int8 ;rootA =false ; As =	int16 // `tick` ""quote"" 'q'
-repeatCount
-    // trailing space 
-    =
-    int16
-; u8x '\x00'
-    //	t
-    = ; } options	{
-    repeatCount
-= 0
-u128
-    //
-    = false ; i64_
-// trailing space 
-// `tick` ""quote"" 'q'
-= '0' ; //	t
-}
-")).
-Eval vm_compute in ("<<<M1910>>>" ++ check (runes_of_ascii "MetaData
-    u { }  options {
-// c
-// @lengthOf(
-float = int8 ;rootA false ; As =	int16 // `tick` ""quote"" 'q'
-repeatCount
-    // trailing space 
-    =
-    int16
-; u8x =
-    //	t
-    '\x00' ; } options	{
-    repeatCount
-= 0
-u128
-    //
-    = false ; i64_
-// trailing space 
-// `tick` ""quote"" 'q'
-= '0' ; //	t
-}
-")).
-Eval vm_compute in ("<<<M1953>>>" ++ check (runes_of_ascii "MetaData
-    u { }  options {
-// c
-// @lengthOf(
-float = int8 ;rootA =false ; As =	int16 // `tick` ""quote"" 'q'
-repeatCount
-    // trailing space 
-    =
-    {
-; u8x =
-    //	t
-    '\x00' ; } options	{
-    repeatCount
-= 0
-u128
-    //
-    = false ; i64_
-// trailing space 
-// `tick` ""quote"" 'q'
-= '0' ; //	t
-}
-")).
-Eval vm_compute in ("<<<M707>>>" ++ check (runes_of_ascii "MetaData u { u128 tag `
-`
-, zchar[ 10 ] pack `say ""hi""`, string metadata`doc` , } packet
-    chars
-    {	match
-    crc as trueish {
-    // " ++ [27880; 37322]%N ++ runes_of_ascii "
-    10: roots [ """ ++ [28040; 24687]%N ++ runes_of_ascii """ ,
-    """" ,4294967296 , ""\n"" ,
-007 ,
-    ""a\""b"" , """"
-, // `tick` ""quote"" 'q'
-42  ]  : string_ ""{,}"" :	x_y_z,} ,
-i8i8
-int, asx
-    ,}
-//	t
-")).
-Eval vm_compute in ("<<<M3594>>>" ++ check (runes_of_ascii "packet
-A 
-{
-u8
-    a
-
-,
-} 
-packet
-
-    B { u16 b	,
-} packet
-	C
-{
-u32
-c	, 
-}
-root	packet	M
-{ u16
-    Kc
-,
-u16  Kb
-, u16
-Ka , match
-	Kc as
-    X{
-	9
-:
-
-A ,10
-:
-
-B  ,	}
-, 
-match
-
-Kb as Y {2 
-:
-C ,
-
-    1:	A
-    ,} , match
-	Ka  as
-Z
-
-    {
-1  :
-B,  } 
-,
-
-A,  B	,
-C 
-,
-
-    }
-")).
-Eval vm_compute in ("<<<M3481>>>" ++ check (runes_of_ascii "// top
-packet
-    // c0
-chars
-    // c1
-{
-    // c2
-}
-    // c3
-packet
-    // c4
-MetaDataX
-    // c5
-{
-    // c6
-@tag(
-    // c7
-42
-    // c8
-)
-    // c9
-i16
-    // c10
-string_
-    // c11
-,
-    // c12
-repeat
-    // c13
-x
-    // c14
-`say ""hi""`
-    // c15
-,
-    // c16
-}
-    // c17
-")).
-Eval vm_compute in ("<<<M597>>>" ++ check (runes_of_ascii "
-root packet
-a1  {repeat
-    string x
-`// not a comment`	,
-//x
-// @lengthOf(
-}options
-//
-//	t
-{ stringy
-= true } packet msg_type { @rightPad ( '\x00'
-    // " ++ [27880; 37322]%N ++ runes_of_ascii "
-    ) match crc
-as packetx
-{ 65535 :body , 65535 :
-T,	}
-    , //x
-stringy
-    ,u32 roots, uint32 body , }")).
-Eval vm_compute in ("<<<M651>>>" ++ check (runes_of_ascii "packet trueish {repeat As,	repeat uint8 repeatCount
-, @tag( 255) match a1 as x_y_z{  3
-    : i8i8 ,
-    ""abc""
-    : Z9_, 007
-/// triple
-//
-: leftPad 65535
-    : x_y_z ""a\""b"" :matchKey, } , @rightPad(' '
-) // `tick` ""quote"" 'q'
-string packetx , // " ++ [128512]%N ++ runes_of_ascii " emoji
-}
-")).
-Eval vm_compute in ("<<<M1548>>>" ++ check (runes_of_ascii "packet
-//	t
-// trailing space 
-_x {
-// packet A { u8 x, }
-// c
-char[
-3
-    ] u8x @lengthOf(
-u8x ) , @calculatedFrom(""" ++ [128512]%N ++ runes_of_ascii """ """ ++ [128512]%N ++ runes_of_ascii """ // @lengthOf(
-)
-i16	Foo
-@lengthOf(	string_
-    )`doc`	, repeat	i64 metadata , @lengthOf( string_
-) i8 // c
-u  `line1
-line2`	,
-}
-")).
-Eval vm_compute in ("<<<M1655>>>" ++ check (runes_of_ascii "packet
-//	t
-// trailing space 
-_x {
-// packet A { u8 x, }
-// c
-char[
-3
-    ] u8x @lengthOf(
-u8x ) < , @calculatedFrom(""" ++ [128512]%N ++ runes_of_ascii """ // @lengthOf(
-)
-i16	Foo
-@lengthOf(	string_
-    )`doc`	, repeat	i64 metadata , @lengthOf( string_
-) i8 // c
-u  `line1
-line2`	,
-}
-")).
-Eval vm_compute in ("<<<M1519>>>" ++ check (runes_of_ascii "packet
-//	t
-// trailing space 
-_x {
-// packet A { u8 x, }
-// c
-char[
-3
-    ] @lengthOf( u8x
-u8x ) , @calculatedFrom(""" ++ [128512]%N ++ runes_of_ascii """ // @lengthOf(
-)
-i16	Foo
-@lengthOf(	string_
-    )`doc`	, repeat	i64 metadata , @lengthOf( string_
-) i8 // c
-u  `line1
-line2`	,
-}
-")).
-Eval vm_compute in ("<<<M75>>>" ++ check (runes_of_ascii "MetaData calculatedFrom { // @lengthOf(
-tag a1
-, uint8 _x`crlf
-line`,
-// " ++ [27880; 37322]%N ++ runes_of_ascii "
-// packet A { u8 x, }
-string
-    Z9_ ,uint8x A`line1
-line2` ,char falsey , packetx Foo
-,  }
-MetaData body {
-string x_y_z``
-    , falsey zchar `line1
-line2` , } options{ }
-")).
-Eval vm_compute in ("<<<M1061>>>" ++ check (runes_of_ascii "packet uint8x{ char[	42
-    ]i64_ @lengthOf( crc
-// `tick` ""quote"" 'q'
-//x
-) `a\`, @calculatedFrom(  ""{,}"") @calculatedFrom( ""\" ++ [233]%N ++ runes_of_ascii """ ) repeat
-    i16 rootA`// not a comment` , // @lengthOf(
-As
-@lengthOf(falsey
-) , @lengthOf(pack
-)
-int64 packetx	, }
-")).
-Eval vm_compute in ("<<<M3934>>>" ++ check (runes_of_ascii "
-
-  root
-
-packet repeatCount {
-T
-	{ char[
-	255  ]
-	T
-    // c
-  // packet A { u8 x, }
-	`a\`
-    ,
-
-zchar[
-	00  // trailing space 
-  	]Foo@lengthOf(
-repeatCount )// " ++ [128512]%N ++ runes_of_ascii " emoji
-		,  Foo
-	x_y_z , packetx@calculatedFrom(
-    ""packet"")	// " ++ [27880; 37322]%N ++ runes_of_ascii "
-
-,},	}")).
-Eval vm_compute in ("<<<M89>>>" ++ check (runes_of_ascii "//	t
-packet
-packetx { zchar , @lengthOf( x_y_z )o ,
-}
-    packet  Packet // " ++ [128512]%N ++ runes_of_ascii " emoji
-{ match u128 as // a // b
-Header{ [
-    7
-    ,""1""
-]: u
-    , ""x y"" :
-charz 0123456789 : calculatedFrom
-//	t
-//x
-} ,// " ++ [27880; 37322]%N ++ runes_of_ascii "
-repeat  roots
-tag
-    ,}")).
-Eval vm_compute in ("<<<M1636>>>" ++ check (runes_of_ascii "packet
-//	t
-// trailing space 
-_x {
-// packet A { u8 x, }
-// c
-char[
-3
-    ] u8x @lengthOf(
-u8x ) , @calculatedFrom(""" ++ [128512]%N ++ runes_of_ascii """ // @lengthOf(
-)
-i16	Foo
-@lengthOf(	string_
-    )`doc`	, repeat	i64 metadata , @lengthOf( string_
-) i8")).
-Eval vm_compute in ("<<<M4314>>>" ++ check (runes_of_ascii "
-packet A {
-
-    @rightPad
-    (  ' '
-    )/// triple
-
-	@calculatedFrom( """ ++ [233]%N ++ runes_of_ascii "t" ++ [233]%N ++ runes_of_ascii """  ) int16
-
-    crc
-
-`tab	here`	// " ++ [128512]%N ++ runes_of_ascii " emoji
-    ,
-    }
-MetaData
-x 
-	// `tick` ""quote"" 'q'
-// " ++ [27880; 37322]%N ++ runes_of_ascii "
-	{
-    } 
-	    // trailing space 
-")).
-Eval vm_compute in ("<<<M1719>>>" ++ check (runes_of_ascii "options { trueish = ""`tick`"" ; string_= """ ++ [233]%N ++ runes_of_ascii "t" ++ [233]%N ++ runes_of_ascii """
-    // c
-    MetaDataX root
-    packet body { stringy @calculatedFrom(
-""a	b"" ) `line1
-line2` , }
-packet Logon {
-    @leftPad(
-    ' ' ) //	t
-u16 string_ `u8 x,` ,
-}
-")).
-Eval vm_compute in ("<<<M1709>>>" ++ check (runes_of_ascii "options { trueish = ""`tick`"" ; string_""abc"" """ ++ [233]%N ++ runes_of_ascii "t" ++ [233]%N ++ runes_of_ascii """
-    // c
-    } root
-    packet body { stringy @calculatedFrom(
-""a	b"" ) `line1
-line2` , }
-packet Logon {
-    @leftPad(
-    ' ' ) //	t
-u16 string_ `u8 x,` ,
-}
-")).
-Eval vm_compute in ("<<<M1843>>>" ++ check (runes_of_ascii "options { trueish = ""`tick`"" ; string_= """ ++ [233]%N ++ runes_of_ascii "t" ++ [233]%N ++ runes_of_ascii """
-    // c
-    } root
-    packet body { stringy @calculatedFrom(
-""a	b"" ) `line1
-line2` , }
-packet Logon {
-    @leftPad@x(
-    ' ' ) //	t
-u16 string_ `u8 x,` ,
-}
-")).
-Eval vm_compute in ("<<<M1718>>>" ++ check (runes_of_ascii "options { trueish = ""`tick`"" ; string_= """ ++ [233]%N ++ runes_of_ascii "t" ++ [233]%N ++ runes_of_ascii """
-    // c
-    root }
-    packet body { stringy @calculatedFrom(
-""a	b"" ) `line1
-line2` , }
-packet Logon {
-    @leftPad(
-    ' ' ) //	t
-u16 string_ `u8 x,` ,
-}
-")).
-Eval vm_compute in ("<<<M1676>>>" ++ check (runes_of_ascii "options  trueish = ""`tick`"" ; string_= """ ++ [233]%N ++ runes_of_ascii "t" ++ [233]%N ++ runes_of_ascii """
-    // c
-    } root
-    packet body { stringy @calculatedFrom(
-""a	b"" ) `line1
-line2` , }
-packet Logon {
-    @leftPad(
-    ' ' ) //	t
-u16 string_ `u8 x,` ,
-}
-")).
-Eval vm_compute in ("<<<M1694>>>" ++ check (runes_of_ascii "options { trueish = f32 ; string_= """ ++ [233]%N ++ runes_of_ascii "t" ++ [233]%N ++ runes_of_ascii """
-    // c
-    } root
-    packet body { stringy @calculatedFrom(
-""a	b"" ) `line1
-line2` , }
-packet Logon {
-    @leftPad(
-    ' ' ) //	t
-u16 string_ `u8 x,` ,
-}
-")).
-Eval vm_compute in ("<<<M110>>>" ++ check (runes_of_ascii "packet i64_
-{	@tag( // a // b
-0123456789) x_y_z@calculatedFrom( ""it's"" ) , @rightPad ( ' ' ) @tag( 007
-    ) leftPad {
-    zchar[00 ]Pad , }
-,int32 _x@lengthOf( BodyLength
-/// triple
-//
-) ,
-}
-")).
-Eval vm_compute in ("<<<M3609>>>" ++ check (runes_of_ascii "root packet
-	Frame
-
-    {	u8
-	K
-	,Logon
-
-    first  , match K	as
-Body{
-	1: Logon , 
-2 
-:
-Logout	,
-    }
-    , }packet Logon{ string
-user ,
-}
-    packet Logout
-	{ u16
-    reason
-,	}
-")).
-Eval vm_compute in ("<<<M404>>>" ++ check (runes_of_ascii "MetaData
-    Header { A float , } MetaData Pad { // trailing space 
-string float `a\` ,
-char[] tag
-    ,
-    // packet A { u8 x, }
-    matchKey BodyLength ,char[ 65535 ] Header
-, }")).
-Eval vm_compute in ("<<<M4518>>>" ++ check (runes_of_ascii "packet A {
-    match k as n {
-        [
-            ""a"", ""bb"", ""c c"", ""d"", ""e"",
-            ""f"", ""g"", ""h"", ""i"", ""j"",
-            ""k"", ""l""
-        ] : B,
-        2 : C,
-    },
-}")).
-Eval vm_compute in ("<<<M4116>>>" ++ check (runes_of_ascii "MetaData calculatedFrom {
-    Foo uint8x,
-    o Packet `a\`,
-    int8 Packet,
-    As calculatedFrom,
-}
-
-options {
-    T = u64;
-    stringy = f64;
-    BodyLength = true;
-}")).
-Eval vm_compute in ("<<<M4497>>>" ++ check (runes_of_ascii "
-// " ++ [128512]%N ++ runes_of_ascii " emoji
-	  packet// @lengthOf(
-    	string_ {
-
-@calculatedFrom(
-""" ++ [233]%N ++ runes_of_ascii "t" ++ [233]%N ++ runes_of_ascii """	)  repeat i64 MetaDataX
-,
-u64	i8i8 `a\` ,As 
-      //
-// " ++ [27880; 37322]%N ++ runes_of_ascii "
-,// packet A { u8 x, }
-	}")).
-Eval vm_compute in ("<<<M2105>>>" ++ check (runes_of_ascii "options{
-_x
-= true
-} options options
-{ o	= /// triple
-false
-    ; chars
-= ""\n"" } root packet	Pad
-/// triple
-// packet A { u8 x, }
-{	chars
-    // a // b
-    ,}")).
-Eval vm_compute in ("<<<M2344>>>" ++ check (runes_of_ascii "// c
-packet x {'1' @lengthOf( metadata ) repeat lengthOf
-,a1{
-trueish	,// c
-repeat//	t
-MetaDataX , } , zchar[
-    42	] rootA // `tick` ""quote"" 'q'
-,
-    }
-")).
-Eval vm_compute in ("<<<M2085>>>" ++ check (runes_of_ascii "options{
-_x _x
-= true
-} options
-{ o	= /// triple
-false
-    ; chars
-= ""\n"" } root packet	Pad
-/// triple
-// packet A { u8 x, }
-{	chars
-    // a // b
-    ,}")).
-Eval vm_compute in ("<<<M2203>>>" ++ check (runes_of_ascii "options{
-_x
-= true
-} options
-{ o	= /// triple
-false
-    ; $ chars
-= ""\n"" } root packet	Pad
-/// triple
-// packet A { u8 x, }
-{	chars
-    // a // b
-    ,}")).
-Eval vm_compute in ("<<<M2200>>>" ++ check (runes_of_ascii "options{
-_x
-= true
-} options
-{ o	= /// triple
-false
-    ; chars
-= ""\n"" } root packet	Pad
-/// triple
-// packet A { u?8 x, }
-{	chars
-    // a // b
-    ,}")).
-Eval vm_compute in ("<<<M2146>>>" ++ check (runes_of_ascii "options{
-_x
-= true
-} options
-{ o	= /// triple
-false
-    ; chars
-= } ""\n"" root packet	Pad
-/// triple
-// packet A { u8 x, }
-{	chars
-    // a // b
-    ,}")).
-Eval vm_compute in ("<<<M2179>>>" ++ check (runes_of_ascii "options{
-_x
-= true
-} options
-{ o	= /// triple
-false
-    ; chars
-= ""\n"" } root packet	Pad
-/// triple
-// packet A { u8 x, }
-{	chars
-    // a // b
-    }")).
-Eval vm_compute in ("<<<M2094>>>" ++ check (runes_of_ascii "options{
-_x
-= 
-} options
-{ o	= /// triple
-false
-    ; chars
-= ""\n"" } root packet	Pad
-/// triple
-// packet A { u8 x, }
-{	chars
-    // a // b
-    ,}")).
-Eval vm_compute in ("<<<M4489>>>" ++ check (runes_of_ascii "packet roots {
-    zchar @lengthOf(calculatedFrom) `" ++ [233]%N ++ runes_of_ascii "`,
-    zchar[1] Foo `
-        `,
-}
-
-options {
-    i64_ = ""a\\""
-    Logon = 1
-    i64_ = i64
-}")).
-Eval vm_compute in ("<<<M1320>>>" ++ check (runes_of_ascii "options { } root
-    packet Packet { Packet
-i8i8
-// `tick` ""quote"" 'q'
-/// triple
-`
-`,}
-    options { asx  ='\x00'; //
-} MetaData Packet
-{ }
-")).
-Eval vm_compute in ("<<<M4085>>>" ++ check (runes_of_ascii "packet A {
-    match k as n {
-        [
-            ""a"", 22, ""c c"", 4, ""e"",
-            66, ""g"", 8
-        ] : B,
-        2 : C,
-    },
-}")).
-Eval vm_compute in ("<<<M335>>>" ++ check (runes_of_ascii "MetaData u { BodyLength repeatCount // packet A { u8 x, }
-,
-} options {
-string_
-= false ; i8i8=10 ;}
-    root packet float { } //")).
-Eval vm_compute in ("<<<M3784>>>" ++ check (runes_of_ascii "options {
-    // " ++ [27880; 37322]%N ++ runes_of_ascii "
-    zchar = zchar[7];
-    asx = 10;
-    zchar = ""a\\"";
-    float = 10
-    Logon = '0';
-}
-
-MetaData crc {
-}")).
-Eval vm_compute in ("<<<M1949>>>" ++ check (runes_of_ascii "MetaData
-    u { }  options {
-// c
-// @lengthOf(
-float = int8 ;rootA =false ; As =	int16 // `tick` ""quote"" 'q'
-repeatCount")).
-Eval vm_compute in ("<<<M3320>>>" ++ check (runes_of_ascii "root packet matchKey { zchar[ // c
-3 ] pack @calculatedFrom( ""a	b"" ) `doc` , } options { } MetaData A { int8 msg_type , }")).
-Eval vm_compute in ("<<<M3352>>>" ++ check (runes_of_ascii "root packet matchKey { zchar[ 3 ] pack @calculatedFrom( ""a	b"" ) `doc` , } options { } MetaData A { int8 // c
-msg_type , }")).
-Eval vm_compute in ("<<<M689>>>" ++ check (runes_of_ascii "options { packetx
-=
-255 ; }
-packet float
-{ repeat
-    //
-    f64 metadata `
-`
-//	t
-//	t
-,}
-MetaData leftPad {
-} //x")).
-Eval vm_compute in ("<<<M1439>>>" ++ check (runes_of_ascii "
-packet
-    falsey { Header@calculatedFrom(""packet""  ) , 0123456789
-    char[ ] packetx
-    , } // `tick` ""quote"" 'q'")).
-Eval vm_compute in ("<<<M4406>>>" ++ check (runes_of_ascii "  MetaData
-	float 
-{float64	charz 
-`
-`
-,
-
-    }
-root	packet
-	chars
-    {
-    @rightPad (  '0' 	 // c
-
-) 
-Foo
-,}
-")).
-Eval vm_compute in ("<<<M1412>>>" ++ check (runes_of_ascii "
-packet
-    falsey { @calculatedFrom(""packet""  ) , char[
-    0123456789 ] packetx
-    , } // `tick` ""quote"" 'q'")).
-Eval vm_compute in ("<<<M1755>>>" ++ check (runes_of_ascii "options { trueish = ""`tick`"" ; string_= """ ++ [233]%N ++ runes_of_ascii "t" ++ [233]%N ++ runes_of_ascii """
-    // c
-    } root
-    packet body { stringy @calculatedFrom(")).
-Eval vm_compute in ("<<<M505>>>" ++ check (runes_of_ascii "options // a // b
-{
-    crc = '0'  ;_x=""a\""b""
-trueish
-    = char[1  ] charz// c
-= 00 ;As =// c
-""a\""b"" }
-")).
-Eval vm_compute in ("<<<M1080>>>" ++ check (runes_of_ascii "root packet Pad {
-float64
-// a // b
-//x
-Pad@lengthOf(repeatCount)
-,@lengthOf( _x ) BodyLength o
-,
-}
-")).
-Eval vm_compute in ("<<<M2355>>>" ++ check (runes_of_ascii "// c
-packet x { @lengthOf( metadata ) repeat lengthOf
-,a1{
-trueish	,// c
-repeat//	t
-MetaDataX , } ,")).
-Eval vm_compute in ("<<<M46>>>" ++ check (runes_of_ascii "packet rootA{ }
-options
-{ uint8x =//	t
-u32 ; i64_
-=	255 ;
-len
-    = ' '
-    ;
-    } // @lengthOf(")).
-Eval vm_compute in ("<<<M2627>>>" ++ check (runes_of_ascii "packet A { @rightPad(' ') @lengthOf(b) @calculatedFrom(""c"") @tag(007) match k as n { 1 : B }, }")).
-Eval vm_compute in ("<<<M3751>>>" ++ check (runes_of_ascii "packet chars {
-}
-
-packet MetaDataX {
     @tag(42)
-    i16 string_,
-    repeat x `say ""hi""`,
+    int64 lengthOf,
+    @tag(255)
+    zchar[7] o,
+    A,
+    @tag(0)
+    repeat lengthOf u8x,
 }")).
-Eval vm_compute in ("<<<M4540>>>" ++ check (runes_of_ascii "  packet  u	{
-    repeat uint64
-	Pad
-
-`a\`,
-
-    }packet	string_ {	repeat	a1 Packet
-
+Eval vm_compute in ("<<<M44>>>" ++ check (runes_of_ascii "packet rootA { @rightPad( ' ') repeat
+    Z9_ roots
+``,	zchar
+tag `two words` , @rightPad ( ' '
+    )
+len {
+// trailing space 
+//x
+u128
+`doc` ,u8x
+    ,  char[ 0123456789 // a // b
+]calculatedFrom  `" ++ [28040; 24687; 31867; 22411]%N ++ runes_of_ascii "`,msg_type
+@lengthOf(
+falsey)`u8 x,` , } ,
+@calculatedFrom( """"	)	f64 charz
+@lengthOf(msg_type) `it's`// trailing space 
 ,
-} ")).
-Eval vm_compute in ("<<<M3267>>>" ++ check (runes_of_ascii "// c
-MetaData float { float64 charz `
-` , } root packet chars { @rightPad ( '0' ) Foo , }")).
-Eval vm_compute in ("<<<M3300>>>" ++ check (runes_of_ascii "MetaData float { float64 charz `
-` , } root packet chars { @rightPad ( '0' )
-// c
-Foo , }")).
-Eval vm_compute in ("<<<M3511>>>" ++ check (runes_of_ascii "packet chars { } packet MetaDataX { @tag( 42 ) i16 string_ , repeat // c
-x `say ""hi""` , }")).
-Eval vm_compute in ("<<<M275>>>" ++ check (runes_of_ascii "options {BodyLength=	""abc"" ;
-int	=
-""""
-; chars
-    = true	body
-    =
-// c
-//
-'\x00'
-}
-")).
-Eval vm_compute in ("<<<M535>>>" ++ check (runes_of_ascii "packet chars
-    //
-    { i8 body @lengthOf( crc), repeat char[] zchar , body
-`
-` , }")).
-Eval vm_compute in ("<<<M3219>>>" ++ check (runes_of_ascii "packet metadata { Logon // c
-{ A `" ++ [28040; 24687; 31867; 22411]%N ++ runes_of_ascii "` , tag o , } , zchar len `// not a comment` , }")).
-Eval vm_compute in ("<<<M561>>>" ++ check (runes_of_ascii "MetaData body {
-string asx
-,
-asx// a // b
-int , u128 a1
-    ,
-int32 len
-    ,
     }
 ")).
-Eval vm_compute in ("<<<M3442>>>" ++ check (runes_of_ascii "packet o { repeat Logon uint8x ,
-// c
-} options { asx = zchar[ 3 ] stringy = '\x00' }")).
-Eval vm_compute in ("<<<M2945>>>" ++ check (runes_of_ascii "packet A {
-  match k as n {
-    [1, 22, ""c c"", 4, 5, ""f"", 7, 8] : B
-    2 : C
-  },
-}")).
-Eval vm_compute in ("<<<M496>>>" ++ check (runes_of_ascii "
-options { repeatCount = ""a	b"" ;As = ' '
-    ;
-    len= true ;string_ = int16 ; }
-")).
-Eval vm_compute in ("<<<M3417>>>" ++ check (runes_of_ascii "MetaData body { i64 pack `it's` , } packet stringy { int16
-// c
-calculatedFrom , }")).
-Eval vm_compute in ("<<<M1934>>>" ++ check (runes_of_ascii "MetaData
-    u { }  options {
-// c
+Eval vm_compute in ("<<<M2036>>>" ++ check (runes_of_ascii "options {roots
+
+    =//x
+
+  int64
+
+}
+
+    // @lengthOf(
 // @lengthOf(
-float = int8 ;rootA =false ; As")).
-Eval vm_compute in ("<<<M1451>>>" ++ check (runes_of_ascii "
-packet
-    falsey { Header@calculatedFrom(""packet""  ) , char[
-    0123456789")).
-Eval vm_compute in ("<<<M2158>>>" ++ check (runes_of_ascii "options{
-_x
-= true
-} options
-{ o	= /// triple
-false
-    ; chars
-= ""\n"" }")).
-Eval vm_compute in ("<<<M3892>>>" ++ check (runes_of_ascii "
-options
-{ trueish
-    =f64	; 
-i8i8	=
+    packet int
+    {
 
-int16
-	;
-	rootA=
-	""`tick`"" ;
+    char	zchar 
+,repeat len { f32a`" ++ [28040; 24687; 31867; 22411]%N ++ runes_of_ascii "`,
+},	zchar[  007 
+]
+	As
+`it's`,	zchar[
 
-}
+007
+
+    // a // b
+  ]
+    uint8x @lengthOf(
+	    //x
+	Foo)
+
+, 
+  // packet A { u8 x, }
+	// packet A { u8 x, }
+  } ")).
+Eval vm_compute in ("<<<M484>>>" ++ check (runes_of_ascii "root packet packet tag { }  packet MetaDataX{char[007	]
+// c
+/// triple
+asx  @calculatedFrom( ""a\""b""
+) `say ""hi""`// " ++ [27880; 37322]%N ++ runes_of_ascii "
+,  @tag(4294967296 )
+    char[1//x
+] packetx @calculatedFrom(""a\""b""
+    ) ,
+// " ++ [128512]%N ++ runes_of_ascii " emoji
+// a // b
+@calculatedFrom(""" ++ [233]%N ++ runes_of_ascii "t" ++ [233]%N ++ runes_of_ascii """  ) repeat pack // " ++ [27880; 37322]%N ++ runes_of_ascii "
+,
+    } // c")).
+Eval vm_compute in ("<<<M631>>>" ++ check (runes_of_ascii "root packet tag { }  packet MetaDataX{char[007	]
+// c
+/// triple
+asx  @calculatedFrom( ""a\""b""
+) `say ""hi""`// " ++ [27880; 37322]%N ++ runes_of_ascii "
+,  @tag(4294967296 )
+    char[1//x
+] packetx @calculatedFrom(""a\""b""
+    ) ,
+// " ++ [128512]%N ++ runes_of_ascii " emoji
+// a // b
+@calculatedFrom(""" ++ [233]%N ++ runes_of_ascii "t" ++ [233]%N ++ runes_of_ascii """  char repeat pack // " ++ [27880; 37322]%N ++ runes_of_ascii "
+,
+    } // c")).
+Eval vm_compute in ("<<<M581>>>" ++ check (runes_of_ascii "root packet tag { }  packet MetaDataX{char[007	]
+// c
+/// triple
+asx  @calculatedFrom( ""a\""b""
+) `say ""hi""`// " ++ [27880; 37322]%N ++ runes_of_ascii "
+,  @tag(4294967296 )
+    zchar[1//x
+] packetx @calculatedFrom(""a\""b""
+    ) ,
+// " ++ [128512]%N ++ runes_of_ascii " emoji
+// a // b
+@calculatedFrom(""" ++ [233]%N ++ runes_of_ascii "t" ++ [233]%N ++ runes_of_ascii """  ) repeat pack // " ++ [27880; 37322]%N ++ runes_of_ascii "
+,
+    } // c")).
+Eval vm_compute in ("<<<M575>>>" ++ check (runes_of_ascii "root packet tag { }  packet MetaDataX{char[007	]
+// c
+/// triple
+asx  @calculatedFrom( ""a\""b""
+) `say ""hi""`// " ++ [27880; 37322]%N ++ runes_of_ascii "
+,  @tag(4294967296 char[
+    )1//x
+] packetx @calculatedFrom(""a\""b""
+    ) ,
+// " ++ [128512]%N ++ runes_of_ascii " emoji
+// a // b
+@calculatedFrom(""" ++ [233]%N ++ runes_of_ascii "t" ++ [233]%N ++ runes_of_ascii """  ) repeat pack // " ++ [27880; 37322]%N ++ runes_of_ascii "
+,
+    } // c")).
+Eval vm_compute in ("<<<M596>>>" ++ check (runes_of_ascii "root packet tag { }  packet MetaDataX{char[007	]
+// c
+/// triple
+asx  @calculatedFrom( ""a\""b""
+) `say ""hi""`// " ++ [27880; 37322]%N ++ runes_of_ascii "
+,  @tag(4294967296 )
+    char[1//x
+] match @calculatedFrom(""a\""b""
+    ) ,
+// " ++ [128512]%N ++ runes_of_ascii " emoji
+// a // b
+@calculatedFrom(""" ++ [233]%N ++ runes_of_ascii "t" ++ [233]%N ++ runes_of_ascii """  ) repeat pack // " ++ [27880; 37322]%N ++ runes_of_ascii "
+,
+    } // c")).
+Eval vm_compute in ("<<<M593>>>" ++ check (runes_of_ascii "root packet tag { }  packet MetaDataX{char[007	]
+// c
+/// triple
+asx  @calculatedFrom( ""a\""b""
+) `say ""hi""`// " ++ [27880; 37322]%N ++ runes_of_ascii "
+,  @tag(4294967296 )
+    char[1//x
+]  @calculatedFrom(""a\""b""
+    ) ,
+// " ++ [128512]%N ++ runes_of_ascii " emoji
+// a // b
+@calculatedFrom(""" ++ [233]%N ++ runes_of_ascii "t" ++ [233]%N ++ runes_of_ascii """  ) repeat pack // " ++ [27880; 37322]%N ++ runes_of_ascii "
+,
+    } // c")).
+Eval vm_compute in ("<<<M637>>>" ++ check (runes_of_ascii "root packet tag { }  packet MetaDataX{char[007	]
+// c
+/// triple
+asx  @calculatedFrom( ""a\""b""
+) `say ""hi""`// " ++ [27880; 37322]%N ++ runes_of_ascii "
+,  @tag(4294967296 )
+    char[1//x
+] packetx @calculatedFrom(""a\""b""
+    ) ,
+// " ++ [128512]%N ++ runes_of_ascii " emoji
+// a // b
+@calculatedFrom(""" ++ [233]%N ++ runes_of_ascii "t" ++ [233]%N ++ runes_of_ascii """  )")).
+Eval vm_compute in ("<<<M1335>>>" ++ check (runes_of_ascii "// top
+packet // c0
+o // c1
+{ // c2
+repeat // c3
+Logon // c4
+uint8x // c5
+, // c6
+} // c7
+options // c8
+{ // c9
+asx // c10
+= // c11
+zchar[ // c12
+3 // c13
+] // c14
+stringy // c15
+= // c16
+'\x00' // c17
+} // c18
 ")).
-Eval vm_compute in ("<<<M2351>>>" ++ check (runes_of_ascii "// c
-packet x { @lengthOf( metadata ) repeat lengthOf
-,a1{
-trueish	,")).
-Eval vm_compute in ("<<<M4485>>>" ++ check (runes_of_ascii "
-options  {
-
-u8x
-    =	/// triple
-	  zchar[
-	00
-
-    ]
-    ; }
-")).
-Eval vm_compute in ("<<<M2922>>>" ++ check (runes_of_ascii "packet A { Inner { match k as n { [1,22,007,4,5,66] : B, }, }, }")).
-Eval vm_compute in ("<<<M3468>>>" ++ check (runes_of_ascii "// top
-MetaData
-    // c0
-o
-    // c1
+Eval vm_compute in ("<<<M1501>>>" ++ check (runes_of_ascii "// top
+packet // c0
+orderItem // c1a
+  // c1b
+{ u8 // c3
+a // c4
+, } // c6
+root
+    // c7
+packet // c8a
+  // c8b
+newOrder // c9
 {
-    // c2
-}
-    // c3
+    // c10
+orderItem , // c12a
+  // c12b
+u8
+    // c13
+x , } ")).
+Eval vm_compute in ("<<<M1868>>>" ++ check (runes_of_ascii "options
+    { LittleEndian
+
+= true;
+
+} 
+packet B
+{
+
+    u8
+	a
+,
+    string
+
+    s
+, }
+    root
+
+packet
+
+    P	{ 
+u16
+
+    L
+
+    @lengthOf(
+    B 
+)
+, B,
+u8  t ,
+	} ")).
+Eval vm_compute in ("<<<M216>>>" ++ check (runes_of_ascii "MetaData msg_type { }root
+    packet T{@rightPad (
+    )
+    repeat char[ 3 ]	x_y_z ,
+    @lengthOf(
+roots  ) string	i64_ @lengthOf(
+u8x // a // b
+) `// not a comment`	,}")).
+Eval vm_compute in ("<<<M704>>>" ++ check (runes_of_ascii "root packet len // trailing space 
+{
+// " ++ [27880; 37322]%N ++ runes_of_ascii "
+//	t
+char[10
+] metadata	@lengt%hOf( o ) `crlf
+line`,
+    @rightPad
+( ' '
+) string
+    Header @calculatedFrom( ""a\\""
+    ), }
 ")).
-Eval vm_compute in ("<<<M3364>>>" ++ check (runes_of_ascii "
+Eval vm_compute in ("<<<M720>>>" ++ check (runes_of_ascii "root packet len // trailing space 
+{
+// " ++ [27880; 37322]%N ++ runes_of_ascii "
+//	t
+char[10
+] metadata	@lengthOf( o ) `crlf
+line`,
+    @rightPad
+( ' '
+) string
+    Header @calculatedFrom( ""a\\""
+    )} ,
+")).
+Eval vm_compute in ("<<<M1805>>>" ++ check (runes_of_ascii "packet asx {
+}
+
+// packet A { u8 x, }
+options {
+    options1 = float64
+    leftPad = true;
+    MetaDataX = char[00];
+    roots = false
+}// " ++ [128512]%N ++ runes_of_ascii " emoji
+
+packet string_ {
+}")).
+Eval vm_compute in ("<<<M602>>>" ++ check (runes_of_ascii "root packet tag { }  packet MetaDataX{char[007	]
 // c
-packet x { @rightPad ( ) repeat roots Logon `doc` , }")).
-Eval vm_compute in ("<<<M3376>>>" ++ check (runes_of_ascii "packet x { @rightPad ( )
-// c
-repeat roots Logon `doc` , }")).
-Eval vm_compute in ("<<<M2858>>>" ++ check (runes_of_ascii "packet A {
+/// triple
+asx  @calculatedFrom( ""a\""b""
+) `say ""hi""`// " ++ [27880; 37322]%N ++ runes_of_ascii "
+,  @tag(4294967296 )
+    char[1//x
+] packetx")).
+Eval vm_compute in ("<<<M2028>>>" ++ check (runes_of_ascii "
+root packet
+matchKey{  zchar[ 3
+
+]
+
+    pack@calculatedFrom(
+    ""a	b""
+)
+
+`doc`// c
+  ,  }options {
+	} MetaData A  {
+
+int8
+
+msg_type
+	,
+
+    } ")).
+Eval vm_compute in ("<<<M443>>>" ++ check (runes_of_ascii "packet
+    // `tick` ""quote"" 'q'
+    crc
+// packet A { u8 x, }
+//	t
+{
+u32 a1 ,
+    // trailing space 
+    roots
+charz //
+`two words`,	}")).
+Eval vm_compute in ("<<<M1724>>>" ++ check (runes_of_ascii "root packet matchKey {
+    zchar[3] pack @calculatedFrom(""a	b"") `doc`,
+}
+
+options {
+}
+
+MetaData A {
+    int8 msg_type,
+    // c
+}")).
+Eval vm_compute in ("<<<M1223>>>" ++ check (runes_of_ascii "root // c
+packet matchKey { zchar[ 3 ] pack @calculatedFrom( ""a	b"" ) `doc` , } options { } MetaData A { int8 msg_type , }")).
+Eval vm_compute in ("<<<M1255>>>" ++ check (runes_of_ascii "root packet matchKey { zchar[ 3 ] pack @calculatedFrom( ""a	b"" ) `doc` , } options { } // c
+MetaData A { int8 msg_type , }")).
+Eval vm_compute in ("<<<M901>>>" ++ check (runes_of_ascii "packet A {
   match k as n {
-    [1] : B
+    [""a"", ""bb"", ""c c"", ""d"", ""e"", ""f"", ""g"", ""h"", ""i"", ""j"", ""k"", ""l""] : B,
     2 : C
   },
 }")).
-Eval vm_compute in ("<<<M3162>>>" ++ check (runes_of_ascii "// a
-MetaData M {} // b
+Eval vm_compute in ("<<<M909>>>" ++ check (runes_of_ascii "packet A {
+  match k as n {
+    [""a"", ""bb"", 007, ""d"", ""e"", 66, ""g"", ""h"", 9, ""j"", ""k"", 12] : B,
+    2 : C
+  },
+}")).
+Eval vm_compute in ("<<<M562>>>" ++ check (runes_of_ascii "root packet tag { }  packet MetaDataX{char[007	]
 // c
-MetaData N {} // d
-// e")).
-Eval vm_compute in ("<<<M601>>>" ++ check (runes_of_ascii "packet Header
-    { msg_type /// triple
+/// triple
+asx  @calculatedFrom( ""a\""b""
+) `say ""hi""`")).
+Eval vm_compute in ("<<<M1948>>>" ++ check (runes_of_ascii "
+packet 
+chars{ }
+	packet
+
+MetaDataX {@tag(42)i16
+
+string_
+
+, 
+// c
+  repeat	x	`say ""hi""`
+
 ,
-    }")).
-Eval vm_compute in ("<<<M2260>>>" ++ check (runes_of_ascii "options
-{ } options { BodyLength= u16 Header=")).
-Eval vm_compute in ("<<<M2600>>>" ++ check (runes_of_ascii "packet A { repeat B { C { u8 x, }, D d, }, }")).
-Eval vm_compute in ("<<<M139>>>" ++ check (runes_of_ascii "MetaData
-packetx {  zchar[7
-]u128 , }
+
+    }
 ")).
-Eval vm_compute in ("<<<M3198>>>" ++ check (runes_of_ascii "root packet u128 { chars
+Eval vm_compute in ("<<<M1742>>>" ++ check (runes_of_ascii "  packet  o{
+	repeat
+    Logon uint8x, } options 
+    // c
+	{  asx
+= zchar[3]
+stringy 
+=
+
+'\x00'  }")).
+Eval vm_compute in ("<<<M1462>>>" ++ check (runes_of_ascii "packet B {
+    u8 a,
+    string s,
+}
+root packet P {
+    u16 L @lengthOf(B),
+    B,
+    u8 t,
+}
+")).
+Eval vm_compute in ("<<<M864>>>" ++ check (runes_of_ascii "packet A {
+  match k as n {
+    [1, ""bb"", 007, ""d"", 5, ""f"", 7, ""h"", 9] : B,
+    2 : C
+  },
+}")).
+Eval vm_compute in ("<<<M1182>>>" ++ check (runes_of_ascii "MetaData float // c
+{ float64 charz `
+` , } root packet chars { @rightPad ( '0' ) Foo , }")).
+Eval vm_compute in ("<<<M1214>>>" ++ check (runes_of_ascii "MetaData float { float64 charz `
+` , } root packet chars { @rightPad ( '0' ) Foo , // c
+}")).
+Eval vm_compute in ("<<<M1425>>>" ++ check (runes_of_ascii "packet chars { } packet MetaDataX { @tag( 42 ) i16 string_ , repeat x
+// c
+`say ""hi""` , }")).
+Eval vm_compute in ("<<<M1122>>>" ++ check (runes_of_ascii "// c
+packet metadata { Logon { A `" ++ [28040; 24687; 31867; 22411]%N ++ runes_of_ascii "` , tag o , } , zchar len `// not a comment` , }")).
+Eval vm_compute in ("<<<M1155>>>" ++ check (runes_of_ascii "packet metadata { Logon { A `" ++ [28040; 24687; 31867; 22411]%N ++ runes_of_ascii "` , tag o , } , zchar len `// not a comment`
+// c
+, }")).
+Eval vm_compute in ("<<<M1360>>>" ++ check (runes_of_ascii "packet o { repeat Logon uint8x , } options { asx // c
+= zchar[ 3 ] stringy = '\x00' }")).
+Eval vm_compute in ("<<<M2083>>>" ++ check (runes_of_ascii "packet A {
+    match k as n {
+        [1, 22, ""c c"", 4] : B,
+        2 : C,
+    },
+}")).
+Eval vm_compute in ("<<<M1321>>>" ++ check (runes_of_ascii "MetaData body { i64 pack `it's` , } packet // c
+stringy { int16 calculatedFrom , }")).
+Eval vm_compute in ("<<<M1468>>>" ++ check (runes_of_ascii "options {
+    FixedStringPadFromLeft = true;
+}
+root packet P {
+    char[4] z,
+}
+")).
+Eval vm_compute in ("<<<M806>>>" ++ check (runes_of_ascii "packet A {
+  match k as n {
+    [""a"", ""bb"", 007, ""d""] : B
+    2 : C
+  },
+}")).
+Eval vm_compute in ("<<<M792>>>" ++ check (runes_of_ascii "packet A {
+  match k as n {
+    [""a"", ""bb"", 007] : B,
+    2 : C
+  },
+}")).
+Eval vm_compute in ("<<<M1093>>>" ++ check (runes_of_ascii "packet A {
+    match k as n {
+        1 : B,
+        // c
+    },
+}")).
+Eval vm_compute in ("<<<M934>>>" ++ check (runes_of_ascii "MetaData M {
+    u8 x `a
+    b
+  c`,
+    T t `a
+    b
+  c`,
+}")).
+Eval vm_compute in ("<<<M1281>>>" ++ check (runes_of_ascii "packet x {
+// c
+@rightPad ( ) repeat roots Logon `doc` , }")).
+Eval vm_compute in ("<<<M165>>>" ++ check (runes_of_ascii "packet x
+{ @lengthOf( x_y_z )
+BodyLength tag // c
+,}
+")).
+Eval vm_compute in ("<<<M1438>>>" ++ check (runes_of_ascii "root packet P {
+    repeat char cs,
+    u8 x,
+}
+")).
+Eval vm_compute in ("<<<M946>>>" ++ check (runes_of_ascii "MetaData M {
+    u8 x `x
+`,
+    T t `x
+`,
+}")).
+Eval vm_compute in ("<<<M1109>>>" ++ check (runes_of_ascii "root packet u128 { chars
 // c
 `it's` , }")).
-Eval vm_compute in ("<<<M2745>>>" ++ check (runes_of_ascii ":4RjM4nCa.YX!, >bNh(Sx""yjArkf-7J.QvXp ")).
-Eval vm_compute in ("<<<M3152>>>" ++ check (runes_of_ascii "options { a = 1 // c b = 2; // d}")).
-Eval vm_compute in ("<<<M1038>>>" ++ check (runes_of_ascii "root packet Logon
-    //
-    { }
-
-")).
-Eval vm_compute in ("<<<M2830>>>" ++ check (runes_of_ascii "ytSP1+_VA;iR~$29D uo*BDXeR,dd`:e4")).
-Eval vm_compute in ("<<<M1218>>>" ++ check (runes_of_ascii "packet  options1
-    { }
-// " ++ [27880; 37322]%N ++ runes_of_ascii "
-")).
-Eval vm_compute in ("<<<M3097>>>" ++ check (runes_of_ascii "packet A {
- u8 x `d" ++ [8232]%N ++ runes_of_ascii "`, // c" ++ [8232]%N ++ runes_of_ascii "
+Eval vm_compute in ("<<<M1063>>>" ++ check (runes_of_ascii "options { a = 1 // c b = 2; // d}")).
+Eval vm_compute in ("<<<M1910>>>" ++ check (runes_of_ascii "packet A {
+    u8 x `d" ++ [8202]%N ++ runes_of_ascii "`,// c" ++ [8202]%N ++ runes_of_ascii "
 }")).
-Eval vm_compute in ("<<<M2586>>>" ++ check (runes_of_ascii "packet A { x @lengthOf(y), }")).
-Eval vm_compute in ("<<<M4252>>>" ++ check (runes_of_ascii "
-MetaData Z9_ 
-{
-
-    }
-
+Eval vm_compute in ("<<<M735>>>" ++ check (runes_of_ascii "f64 root f32 options true ' '")).
+Eval vm_compute in ("<<<M1075>>>" ++ check (runes_of_ascii "options { a = 1 // a
+ ; }")).
+Eval vm_compute in ("<<<M1390>>>" ++ check (runes_of_ascii "MetaData o { }
+// c
 ")).
-Eval vm_compute in ("<<<M2757>>>" ++ check (runes_of_ascii "true int32 packet [ match")).
-Eval vm_compute in ("<<<M2710>>>" ++ check (runes_of_ascii "-t" ++ [65533]%N ++ runes_of_ascii " =" ++ [65533; 65533; 65533; 1092; 65533; 65533; 65533; 3; 65533; 0]%N ++ runes_of_ascii "'H" ++ [65533; 65533]%N ++ runes_of_ascii "d" ++ [65533]%N ++ runes_of_ascii "" ++ [65533; 65533]%N)).
-Eval vm_compute in ("<<<M214>>>" ++ check (runes_of_ascii "  root packet charz{}")).
-Eval vm_compute in ("<<<M2714>>>" ++ check ([65533; 0; 65533; 65533]%N ++ runes_of_ascii "r" ++ [65533]%N ++ runes_of_ascii "`" ++ [65533]%N ++ runes_of_ascii "o2e" ++ [65533; 65533]%N ++ runes_of_ascii "r" ++ [2]%N ++ runes_of_ascii "#" ++ [65533; 65533]%N ++ runes_of_ascii "N" ++ [65533]%N)).
-Eval vm_compute in ("<<<M2848>>>" ++ check ([65533; 16; 25; 65533; 1737]%N ++ runes_of_ascii "%)I" ++ [65533; 65533]%N ++ runes_of_ascii "$" ++ [65533; 19; 65533; 65533; 6; 65533; 27; 16]%N)).
-Eval vm_compute in ("<<<M3080>>>" ++ check (runes_of_ascii "packet A {
-}
-// c" ++ [5760]%N)).
-Eval vm_compute in ("<<<M887>>>" ++ check (runes_of_ascii "  
-// @lengthOf(
-")).
-Eval vm_compute in ("<<<M296>>>" ++ check (runes_of_ascii "packet f32a {  }")).
-Eval vm_compute in ("<<<M1869>>>" ++ check (runes_of_ascii "MetaData
-    u")).
-Eval vm_compute in ("<<<M2763>>>" ++ check ([65533; 65533]%N ++ runes_of_ascii "xu7H\" ++ [65533; 65533; 65533]%N ++ runes_of_ascii "}#")).
-Eval vm_compute in ("<<<M2489>>>" ++ check (runes_of_ascii "@lengthOf")).
-Eval vm_compute in ("<<<M2468>>>" ++ check (runes_of_ascii "matches")).
-Eval vm_compute in ("<<<M2430>>>" ++ check (runes_of_ascii "chars")).
-Eval vm_compute in ("<<<M3119>>>" ++ check (runes_of_ascii "// c" ++ [12]%N)).
-Eval vm_compute in ("<<<M2719>>>" ++ check (runes_of_ascii "D-{a")).
-Eval vm_compute in ("<<<M2679>>>" ++ check (runes_of_ascii """s""")).
-Eval vm_compute in ("<<<M2444>>>" ++ check (runes_of_ascii "u")).
+Eval vm_compute in ("<<<M997>>>" ++ check (runes_of_ascii "// c" ++ [8192]%N ++ runes_of_ascii "
+packet A {
+}")).
+Eval vm_compute in ("<<<M984>>>" ++ check (runes_of_ascii "packet A {
+}// c" ++ [133]%N)).
+Eval vm_compute in ("<<<M1877>>>" ++ check (runes_of_ascii "packet A {
+}")).
+Eval vm_compute in ("<<<M990>>>" ++ check (runes_of_ascii "// c" ++ [5760]%N)).
+Eval vm_compute in ("<<<M736>>>" ++ check (runes_of_ascii "c")).
